@@ -3,14 +3,808 @@ import PyRt
 # Lemmas.Str — facts about the string / sequence runtime `PyRt.Str`, `PyRt.Misc`
 
 Pure lemmas (no Hoare logic; the `@[spec]` triples are in `Lemmas.StrSpecs`).
-`@[simp]` marks safe rewriting rules, `@[grind …]` makes the membership / length facts available to `grind`.
+`@[simp]` marks safe rewriting rules; `@[grind →]` / `@[grind ←]` / `@[grind =]` / `@[grind .]` make the
+membership-projection, closure and length facts available to `grind`.
+
+Contents: `AllIn` closure · slice bounds (`normIdx`, `loIdx`, `hiIdx`) · slices (membership, length, `take`/`drop`
+forms, partition, emptiness) · `getItem`/`getItemL` · `everyNth`/`sliceStepL` · `enumerate`/`zip3`/`range`/
+`rangeStep`/`sumInt` · `chars`/`join` · `zfill`/`rjust`/`ljust`/`repeatStr` · `replace` · `IsDigits` ·
+`startswith`/`endswith`/`strIn`/`find`/`index`/`indexL`/`count` · `splitOn`/`rsplitOn` · `strLt`/`strLe` ·
+dictionaries · `maxInt`/`minInt`/`ord`/`chr`.
 -/
 namespace Py
 
-/-! ## `AllIn` -/
+
+/-! ## `AllIn` closure -/
+
+theorem AllIn.iff_forall {p : Nat → Bool} {s : Str} : AllIn p s ↔ ∀ c ∈ s, p c = true := Iff.rfl
 
 @[simp, grind =] theorem AllIn.nil_iff {p : Nat → Bool} : AllIn p [] ↔ True := by simp [AllIn]
 theorem AllIn.nil {p : Nat → Bool} : AllIn p [] := by simp [AllIn]
+
+@[simp, grind =] theorem AllIn.cons_iff' {p : Nat → Bool} {c : Nat} {s : Str} :
+    AllIn p (c :: s) ↔ p c = true ∧ AllIn p s := by simp [AllIn]
+
+theorem AllIn.cons {p : Nat → Bool} {c : Nat} {s : Str} (hc : p c = true) (h : AllIn p s) : AllIn p (c :: s) :=
+  AllIn.cons_iff'.mpr ⟨hc, h⟩
+
+theorem AllIn.head {p : Nat → Bool} {c : Nat} {s : Str} (h : AllIn p (c :: s)) : p c = true := (AllIn.cons_iff'.mp h).1
+theorem AllIn.tail {p : Nat → Bool} {c : Nat} {s : Str} (h : AllIn p (c :: s)) : AllIn p s := (AllIn.cons_iff'.mp h).2
+
+@[grind →] theorem AllIn.mem {p : Nat → Bool} {s : Str} {c : Nat} (h : AllIn p s) (hc : c ∈ s) : p c = true := h c hc
+
+@[simp, grind =] theorem AllIn.singleton_iff {p : Nat → Bool} {c : Nat} : AllIn p [c] ↔ p c = true := by simp [AllIn]
+
+@[simp, grind =] theorem AllIn.append_iff {p : Nat → Bool} {s t : Str} : AllIn p (s ++ t) ↔ AllIn p s ∧ AllIn p t := by
+  simp only [AllIn, List.mem_append]
+  constructor
+  · intro h; exact ⟨fun c hc => h c (Or.inl hc), fun c hc => h c (Or.inr hc)⟩
+  · rintro ⟨h1, h2⟩ c (hc | hc)
+    · exact h1 c hc
+    · exact h2 c hc
+
+theorem AllIn.append {p : Nat → Bool} {s t : Str} (hs : AllIn p s) (ht : AllIn p t) : AllIn p (s ++ t) :=
+  AllIn.append_iff.mpr ⟨hs, ht⟩
+
+@[simp, grind =] theorem AllIn.reverse_iff {p : Nat → Bool} {s : Str} : AllIn p s.reverse ↔ AllIn p s := by
+  simp [AllIn]
+
+theorem AllIn.reverse {p : Nat → Bool} {s : Str} (h : AllIn p s) : AllIn p s.reverse := AllIn.reverse_iff.mpr h
+
+theorem AllIn.mono {p q : Nat → Bool} {s : Str} (h : AllIn p s) (hpq : ∀ c, p c = true → q c = true) : AllIn q s :=
+  fun c hc => hpq c (h c hc)
+
+/-- every character of `t` occurs in `s` -/
+theorem AllIn.of_subset {p : Nat → Bool} {s t : Str} (h : AllIn p s) (hts : ∀ c ∈ t, c ∈ s) : AllIn p t :=
+  fun c hc => h c (hts c hc)
+
+@[simp, grind ←] theorem AllIn.take {p : Nat → Bool} {s : Str} (h : AllIn p s) (n : Nat) : AllIn p (s.take n) :=
+  h.of_subset (fun _ hc => List.mem_of_mem_take hc)
+
+@[simp, grind ←] theorem AllIn.drop {p : Nat → Bool} {s : Str} (h : AllIn p s) (n : Nat) : AllIn p (s.drop n) :=
+  h.of_subset (fun _ hc => List.mem_of_mem_drop hc)
+
+@[simp, grind ←] theorem AllIn.filter {p : Nat → Bool} {s : Str} (h : AllIn p s) (q : Nat → Bool) : AllIn p (s.filter q) :=
+  h.of_subset (fun _ hc => (List.mem_filter.mp hc).1)
+
+@[simp, grind =] theorem AllIn.replicate_iff {p : Nat → Bool} {n c : Nat} :
+    AllIn p (List.replicate n c) ↔ n = 0 ∨ p c = true := by
+  simp only [AllIn, List.mem_replicate]
+  constructor
+  · intro h
+    by_cases hn : n = 0
+    · exact Or.inl hn
+    · exact Or.inr (h c ⟨hn, rfl⟩)
+  · rintro (h | h) x ⟨hn, rfl⟩
+    · exact absurd h hn
+    · exact h
+
+theorem AllIn.replicate {p : Nat → Bool} {c : Nat} (h : p c = true) (n : Nat) : AllIn p (List.replicate n c) :=
+  AllIn.replicate_iff.mpr (Or.inr h)
+
+theorem AllIn.all_eq_true {p : Nat → Bool} {s : Str} : s.all p = true ↔ AllIn p s := by simp [AllIn]
+
+/-! ## slice bounds -/
+
+@[simp] theorem normIdx_of_nonneg {n : Nat} {i : Int} (h : 0 ≤ i) : normIdx n i = min i.toNat n := by
+  unfold normIdx; rw [if_neg (by omega)]
+
+@[simp] theorem normIdx_of_neg {n : Nat} {i : Int} (h : i < 0) : normIdx n i = n - (-i).toNat := by
+  unfold normIdx; rw [if_pos h]; omega
+
+@[grind .] theorem normIdx_le (n : Nat) (i : Int) : normIdx n i ≤ n := by
+  unfold normIdx; split <;> omega
+
+/-- arithmetic characterisation (for `omega`) -/
+theorem normIdx_spec (n : Nat) (i : Int) :
+    (0 ≤ i ∧ normIdx n i = min i.toNat n) ∨ (i < 0 ∧ normIdx n i = n - (-i).toNat) := by
+  unfold normIdx; split <;> omega
+
+@[simp] theorem normIdx_natCast (n k : Nat) : normIdx n (k : Int) = min k n := by
+  rw [normIdx_of_nonneg (by omega)]; simp
+@[simp] theorem normIdx_length_nil (i : Int) : normIdx 0 i = 0 := by
+  have := normIdx_le 0 i; omega
+
+@[simp] theorem loIdx_none (n : Nat) : loIdx n none = 0 := rfl
+@[simp] theorem loIdx_some (n : Nat) (i : Int) : loIdx n (some i) = normIdx n i := rfl
+@[simp] theorem hiIdx_none (n : Nat) : hiIdx n none = n := rfl
+@[simp] theorem hiIdx_some (n : Nat) (i : Int) : hiIdx n (some i) = normIdx n i := rfl
+@[grind .] theorem loIdx_le (n : Nat) (a : Option Int) : loIdx n a ≤ n := by
+  cases a <;> simp [normIdx_le]
+@[grind .] theorem hiIdx_le (n : Nat) (a : Option Int) : hiIdx n a ≤ n := by
+  cases a <;> simp [normIdx_le]
+
+example : normIdx 7 3 = 3 := by simp
+example : normIdx 7 (-3) = 4 := by simp
+example (n : Nat) : normIdx n (-(1 : Int)) = n - 1 := by simp
+example (n : Nat) : normIdx n (-1) = n - 1 := by simp
+example (n : Nat) : normIdx n 2 = min 2 n := by simp
+example (n : Nat) (i : Int) (h : 0 ≤ i) : normIdx n (i + 2) = min (i + 2).toNat n := by
+  rw [normIdx_of_nonneg (by omega)]
+
+
+
+/-! ## slices -/
+
+theorem sliceL_eq {α : Type} (x : List α) (a b : Option Int) :
+    sliceL x a b = (x.drop (loIdx x.length a)).take (hiIdx x.length b - loIdx x.length a) := rfl
+
+theorem slice_eq (s : Str) (a b : Option Int) :
+    slice s a b = (s.drop (loIdx s.length a)).take (hiIdx s.length b - loIdx s.length a) := rfl
+
+theorem slice_eq_sliceL (s : Str) (a b : Option Int) : slice s a b = sliceL s a b := rfl
+
+@[grind →] theorem mem_sliceL {α : Type} {x : List α} {a b : Option Int} {c : α} (h : c ∈ sliceL x a b) : c ∈ x :=
+  List.mem_of_mem_drop (List.mem_of_mem_take h)
+
+@[grind →] theorem mem_slice {s : Str} {a b : Option Int} {c : Nat} (h : c ∈ slice s a b) : c ∈ s := mem_sliceL h
+
+theorem sliceL_sublist {α : Type} (x : List α) (a b : Option Int) : (sliceL x a b).Sublist x :=
+  (List.take_sublist _ _).trans (List.drop_sublist _ _)
+
+/-- a slice is a contiguous part -/
+theorem sliceL_infix {α : Type} (x : List α) (a b : Option Int) : sliceL x a b <:+: x :=
+  (List.take_prefix _ _).isInfix.trans (List.drop_suffix _ _).isInfix
+
+@[simp, grind ←] theorem AllIn.sliceL {p : Nat → Bool} {s : Str} (h : AllIn p s) (a b : Option Int) :
+    AllIn p (Py.sliceL s a b) := h.of_subset (fun _ hc => mem_sliceL hc)
+
+@[simp, grind ←] theorem AllIn.slice {p : Nat → Bool} {s : Str} (h : AllIn p s) (a b : Option Int) :
+    AllIn p (Py.slice s a b) := h.of_subset (fun _ hc => mem_slice hc)
+
+/-- exact length of any slice -/
+theorem sliceL_length {α : Type} (x : List α) (a b : Option Int) :
+    (sliceL x a b).length = hiIdx x.length b - loIdx x.length a := by
+  have := hiIdx_le x.length b
+  simp only [sliceL_eq, List.length_take, List.length_drop]
+  omega
+
+theorem slice_length (s : Str) (a b : Option Int) :
+    (slice s a b).length = hiIdx s.length b - loIdx s.length a := sliceL_length s a b
+
+@[grind .] theorem sliceL_length_le {α : Type} (x : List α) (a b : Option Int) : (sliceL x a b).length ≤ x.length := by
+  have := hiIdx_le x.length b
+  rw [sliceL_length]; omega
+
+@[grind .] theorem slice_length_le (s : Str) (a b : Option Int) : (slice s a b).length ≤ s.length := sliceL_length_le s a b
+
+/-- `s[a:b]` has at most `b - a` characters (`0 ≤ a`, `0 ≤ b`).
+(For `b < 0` this is false: `"abcdef"[1:-1]` has 4 characters.) -/
+theorem sliceL_length_le_const {α : Type} (x : List α) {a b : Int} (ha : 0 ≤ a) (hb : 0 ≤ b) :
+    (sliceL x (some a) (some b)).length ≤ (b - a).toNat := by
+  simp only [sliceL_length, hiIdx_some, loIdx_some, normIdx_of_nonneg ha, normIdx_of_nonneg hb]
+  omega
+
+theorem slice_length_le_const (s : Str) {a b : Int} (ha : 0 ≤ a) (hb : 0 ≤ b) :
+    (slice s (some a) (some b)).length ≤ (b - a).toNat := sliceL_length_le_const s ha hb
+
+theorem sliceL_none_length_le_const {α : Type} (x : List α) {b : Int} (hb : 0 ≤ b) :
+    (sliceL x none (some b)).length ≤ b.toNat := by
+  simp only [sliceL_length, hiIdx_some, loIdx_none, normIdx_of_nonneg hb]
+  omega
+
+theorem slice_none_length_le_const (s : Str) {b : Int} (hb : 0 ≤ b) :
+    (slice s none (some b)).length ≤ b.toNat := sliceL_none_length_le_const s hb
+
+/-- exact length when the string is long enough -/
+theorem sliceL_length_exact {α : Type} (x : List α) {a b : Int} (ha : 0 ≤ a) (hab : a ≤ b) (hb : b ≤ x.length) :
+    (sliceL x (some a) (some b)).length = (b - a).toNat := by
+  simp only [sliceL_length, hiIdx_some, loIdx_some, normIdx_of_nonneg ha, normIdx_of_nonneg (Int.le_trans ha hab)]
+  omega
+
+theorem slice_length_exact (s : Str) {a b : Int} (ha : 0 ≤ a) (hab : a ≤ b) (hb : b ≤ s.length) :
+    (slice s (some a) (some b)).length = (b - a).toNat := sliceL_length_exact s ha hab hb
+
+theorem sliceL_none_length_exact {α : Type} (x : List α) {b : Int} (h0 : 0 ≤ b) (hb : b ≤ x.length) :
+    (sliceL x none (some b)).length = b.toNat := by
+  simp only [sliceL_length, hiIdx_some, loIdx_none, normIdx_of_nonneg h0]
+  omega
+
+theorem slice_none_length_exact (s : Str) {b : Int} (h0 : 0 ≤ b) (hb : b ≤ s.length) :
+    (slice s none (some b)).length = b.toNat := sliceL_none_length_exact s h0 hb
+
+theorem sliceL_some_none_length {α : Type} (x : List α) {a : Int} (ha : 0 ≤ a) :
+    (sliceL x (some a) none).length = x.length - a.toNat := by
+  simp only [sliceL_length, hiIdx_none, loIdx_some, normIdx_of_nonneg ha]
+  omega
+
+theorem slice_some_none_length (s : Str) {a : Int} (ha : 0 ≤ a) :
+    (slice s (some a) none).length = s.length - a.toNat := sliceL_some_none_length s ha
+
+/-- `s[:-k]` drops the last `k` characters (`0 < k`) -/
+theorem sliceL_none_neg_length {α : Type} (x : List α) {k : Int} (hk : 0 < k) :
+    (sliceL x none (some (-k))).length = x.length - k.toNat := by
+  simp only [sliceL_length, hiIdx_some, loIdx_none, normIdx_of_neg (show -k < 0 by omega), Int.neg_neg]
+  omega
+
+theorem slice_none_neg_length (s : Str) {k : Int} (hk : 0 < k) :
+    (slice s none (some (-k))).length = s.length - k.toNat := sliceL_none_neg_length s hk
+
+/-- `s[-k:]` are the last `k` characters (`0 < k`) -/
+theorem sliceL_neg_none_length {α : Type} (x : List α) {k : Int} (hk : 0 < k) :
+    (sliceL x (some (-k)) none).length = min k.toNat x.length := by
+  simp only [sliceL_length, hiIdx_none, loIdx_some, normIdx_of_neg (show -k < 0 by omega), Int.neg_neg]
+  omega
+
+theorem slice_neg_none_length (s : Str) {k : Int} (hk : 0 < k) :
+    (slice s (some (-k)) none).length = min k.toNat s.length := sliceL_neg_none_length s hk
+
+@[simp, grind =] theorem sliceL_none_none {α : Type} (x : List α) : sliceL x none none = x := by
+  simp [sliceL_eq]
+
+@[simp, grind =] theorem slice_none_none (s : Str) : slice s none none = s := sliceL_none_none s
+
+@[simp] theorem sliceL_nil {α : Type} (a b : Option Int) : sliceL ([] : List α) a b = [] := by
+  simp [sliceL_eq]
+
+@[simp] theorem slice_nil (a b : Option Int) : slice [] a b = [] := sliceL_nil a b
+
+/-! ### slices as `take` / `drop` -/
+
+theorem sliceL_none_some {α : Type} (x : List α) (b : Int) : sliceL x none (some b) = x.take (normIdx x.length b) := by
+  simp [sliceL_eq]
+
+theorem sliceL_some_none {α : Type} (x : List α) (a : Int) : sliceL x (some a) none = x.drop (normIdx x.length a) := by
+  simp only [sliceL_eq, hiIdx_none, loIdx_some]
+  rw [List.take_of_length_le (by simp)]
+
+theorem sliceL_none_nonneg {α : Type} (x : List α) {b : Int} (hb : 0 ≤ b) : sliceL x none (some b) = x.take b.toNat := by
+  rw [sliceL_none_some, normIdx_of_nonneg hb]
+  by_cases h : b.toNat ≤ x.length
+  · rw [Nat.min_eq_left h]
+  · rw [Nat.min_eq_right (by omega), List.take_of_length_le (by omega), List.take_of_length_le (by omega)]
+
+theorem slice_none_nonneg (s : Str) {b : Int} (hb : 0 ≤ b) : slice s none (some b) = s.take b.toNat :=
+  sliceL_none_nonneg s hb
+
+theorem sliceL_nonneg_none {α : Type} (x : List α) {a : Int} (ha : 0 ≤ a) : sliceL x (some a) none = x.drop a.toNat := by
+  rw [sliceL_some_none, normIdx_of_nonneg ha]
+  by_cases h : a.toNat ≤ x.length
+  · rw [Nat.min_eq_left h]
+  · rw [Nat.min_eq_right (by omega), List.drop_of_length_le (by omega), List.drop_of_length_le (by omega)]
+
+theorem slice_nonneg_none (s : Str) {a : Int} (ha : 0 ≤ a) : slice s (some a) none = s.drop a.toNat :=
+  sliceL_nonneg_none s ha
+
+theorem sliceL_nonneg_nonneg {α : Type} (x : List α) {a b : Int} (ha : 0 ≤ a) (hb : 0 ≤ b) :
+    sliceL x (some a) (some b) = (x.drop a.toNat).take (b.toNat - a.toNat) := by
+  simp only [sliceL_eq, hiIdx_some, loIdx_some, normIdx_of_nonneg ha, normIdx_of_nonneg hb]
+  by_cases h : a.toNat ≤ x.length
+  · rw [Nat.min_eq_left h]
+    by_cases h2 : b.toNat ≤ x.length
+    · rw [Nat.min_eq_left h2]
+    · rw [Nat.min_eq_right (by omega), List.take_of_length_le (by simp), List.take_of_length_le (by simp; omega)]
+  · rw [List.drop_of_length_le (by omega), List.drop_of_length_le (by omega)]; simp
+
+theorem slice_nonneg_nonneg (s : Str) {a b : Int} (ha : 0 ≤ a) (hb : 0 ≤ b) :
+    slice s (some a) (some b) = (s.drop a.toNat).take (b.toNat - a.toNat) := sliceL_nonneg_nonneg s ha hb
+
+theorem sliceL_none_neg {α : Type} (x : List α) {k : Int} (hk : 0 < k) :
+    sliceL x none (some (-k)) = x.take (x.length - k.toNat) := by
+  rw [sliceL_none_some, normIdx_of_neg (by omega), Int.neg_neg]
+
+theorem slice_none_neg (s : Str) {k : Int} (hk : 0 < k) : slice s none (some (-k)) = s.take (s.length - k.toNat) :=
+  sliceL_none_neg s hk
+
+theorem sliceL_neg_none {α : Type} (x : List α) {k : Int} (hk : 0 < k) :
+    sliceL x (some (-k)) none = x.drop (x.length - k.toNat) := by
+  rw [sliceL_some_none, normIdx_of_neg (by omega), Int.neg_neg]
+
+theorem slice_neg_none (s : Str) {k : Int} (hk : 0 < k) : slice s (some (-k)) none = s.drop (s.length - k.toNat) :=
+  sliceL_neg_none s hk
+
+/-! ### partition -/
+
+/-- consecutive slices with a common cut point concatenate (the cut point must lie between the ends) -/
+theorem sliceL_append_sliceL {α : Type} (x : List α) (a c : Option Int) (k : Int)
+    (h1 : loIdx x.length a ≤ normIdx x.length k) (h2 : normIdx x.length k ≤ hiIdx x.length c) :
+    sliceL x a (some k) ++ sliceL x (some k) c = sliceL x a c := by
+  simp only [sliceL_eq, hiIdx_some, loIdx_some]
+  generalize loIdx x.length a = lo at *
+  generalize hiIdx x.length c = hi at *
+  generalize normIdx x.length k = m at *
+  have e1 : m = lo + (m - lo) := by omega
+  have e2 : hi - lo = (m - lo) + (hi - m) := by omega
+  rw [e2, List.take_add, List.drop_drop]
+  congr 3 <;> omega
+
+theorem slice_append_slice (s : Str) (a c : Option Int) (k : Int)
+    (h1 : loIdx s.length a ≤ normIdx s.length k) (h2 : normIdx s.length k ≤ hiIdx s.length c) :
+    slice s a (some k) ++ slice s (some k) c = slice s a c := sliceL_append_sliceL s a c k h1 h2
+
+/-- Python's partition property `s[:k] + s[k:] == s`, for every `k` (also negative) -/
+@[simp] theorem sliceL_append_drop {α : Type} (x : List α) (k : Int) :
+    sliceL x none (some k) ++ sliceL x (some k) none = x := by
+  rw [sliceL_append_sliceL x none none k (by simp) (by simp [normIdx_le]), sliceL_none_none]
+
+@[simp] theorem slice_append_drop (s : Str) (k : Int) : slice s none (some k) ++ slice s (some k) none = s :=
+  sliceL_append_drop s k
+
+/-- constant cut points `0 ≤ a ≤ b ≤ c` -/
+theorem slice_append_slice_const (s : Str) {a b c : Int} (ha : 0 ≤ a) (hab : a ≤ b) (hbc : b ≤ c) :
+    slice s (some a) (some b) ++ slice s (some b) (some c) = slice s (some a) (some c) := by
+  apply slice_append_slice
+  · simp only [loIdx_some, normIdx_of_nonneg ha, normIdx_of_nonneg (Int.le_trans ha hab)]; omega
+  · simp only [hiIdx_some, normIdx_of_nonneg (Int.le_trans ha hab),
+      normIdx_of_nonneg (Int.le_trans (Int.le_trans ha hab) hbc)]; omega
+
+theorem slice_none_append_slice_const (s : Str) {b c : Int} (hb : 0 ≤ b) (hbc : b ≤ c) :
+    slice s none (some b) ++ slice s (some b) (some c) = slice s none (some c) := by
+  apply slice_append_slice
+  · simp
+  · simp only [hiIdx_some, normIdx_of_nonneg hb, normIdx_of_nonneg (Int.le_trans hb hbc)]; omega
+
+theorem slice_append_slice_none_const (s : Str) {a b : Int} (ha : 0 ≤ a) (hab : a ≤ b) :
+    slice s (some a) (some b) ++ slice s (some b) none = slice s (some a) none := by
+  apply slice_append_slice
+  · simp only [loIdx_some, normIdx_of_nonneg ha, normIdx_of_nonneg (Int.le_trans ha hab)]; omega
+  · simp [normIdx_le]
+
+/-- `s[:-k] + s[-k:] == s` and more generally the tail cut at a negative point -/
+theorem slice_append_slice_neg (s : Str) {a : Int} {k : Int} (ha : 0 ≤ a) (hk : 0 < k) (h : a + k ≤ s.length) :
+    slice s (some a) (some (-k)) ++ slice s (some (-k)) none = slice s (some a) none := by
+  apply slice_append_slice
+  · simp only [loIdx_some, normIdx_of_nonneg ha, normIdx_of_neg (show -k < 0 by omega), Int.neg_neg]; omega
+  · simp [normIdx_le]
+
+/-! ### emptiness -/
+
+theorem sliceL_eq_nil_iff {α : Type} (x : List α) (a b : Option Int) :
+    sliceL x a b = [] ↔ hiIdx x.length b ≤ loIdx x.length a := by
+  rw [← List.length_eq_zero_iff, sliceL_length]; omega
+
+theorem slice_eq_nil_iff (s : Str) (a b : Option Int) :
+    slice s a b = [] ↔ hiIdx s.length b ≤ loIdx s.length a := sliceL_eq_nil_iff s a b
+
+theorem slice_ne_nil (s : Str) {a b : Int} (ha : 0 ≤ a) (hab : a < b) (hs : a < s.length) :
+    slice s (some a) (some b) ≠ [] := by
+  rw [Ne, slice_eq_nil_iff, hiIdx_some, loIdx_some, normIdx_of_nonneg ha, normIdx_of_nonneg (by omega)]
+  omega
+
+theorem slice_none_ne_nil (s : Str) {b : Int} (hb : 0 < b) (hs : s ≠ []) : slice s none (some b) ≠ [] := by
+  have : 0 < s.length := List.length_pos_iff.mpr hs
+  rw [Ne, slice_eq_nil_iff, hiIdx_some, loIdx_none, normIdx_of_nonneg (by omega)]
+  omega
+
+theorem slice_some_none_ne_nil (s : Str) {a : Int} (ha : 0 ≤ a) (hs : a < s.length) : slice s (some a) none ≠ [] := by
+  rw [Ne, slice_eq_nil_iff, hiIdx_none, loIdx_some, normIdx_of_nonneg ha]
+  omega
+
+theorem slice_neg_none_ne_nil (s : Str) {k : Int} (hk : 0 < k) (hs : s ≠ []) : slice s (some (-k)) none ≠ [] := by
+  have : 0 < s.length := List.length_pos_iff.mpr hs
+  rw [Ne, slice_eq_nil_iff, hiIdx_none, loIdx_some, normIdx_of_neg (by omega), Int.neg_neg]
+  omega
+
+/-- a slice of known positive length is not empty -/
+theorem ne_nil_of_length_eq {α : Type} {l : List α} {n : Nat} (h : l.length = n) (hn : 0 < n) : l ≠ [] := by
+  intro h'; rw [h'] at h; simp at h; omega
+
+example : slice [1, 2, 3, 4, 5] (some 1) (some (-1)) = [2, 3, 4] := by decide
+example (s : Str) (h : s.length = 9) : (slice s (some 2) (some 5)).length = 3 := by
+  rw [slice_length_exact s (by omega) (by omega) (by omega)]; rfl
+example (s : Str) : (slice s none (some (-1))).length = s.length - 1 := by
+  rw [slice_none_neg_length s (by omega)]; rfl
+example (s : Str) : (slice s none (some (-1))).length = s.length - 1 := by
+  simp [slice_length]
+
+
+
+/-! ## `getItem`, `getItemL` -/
+
+/-- `getItemL` with the bounds check made explicit -/
+theorem getItemL_eq {α : Type} (x : List α) (i : Int) :
+    getItemL x i =
+      if h : -(x.length : Int) ≤ i ∧ i < x.length then
+        .ok (x[(if i < 0 then (x.length : Int) + i else i).toNat]'(by split <;> omega))
+      else raise .indexError := by
+  unfold getItemL
+  simp only []
+  by_cases h : -(x.length : Int) ≤ i ∧ i < x.length
+  · rw [dif_pos h]
+    have hj : 0 ≤ (if i < 0 then (x.length : Int) + i else i) ∧
+        (if i < 0 then (x.length : Int) + i else i) < x.length := by split <;> omega
+    rw [if_pos hj, List.getElem?_eq_getElem (by omega)]
+  · rw [dif_neg h]
+    have hj : ¬ (0 ≤ (if i < 0 then (x.length : Int) + i else i) ∧
+        (if i < 0 then (x.length : Int) + i else i) < x.length) := by split <;> omega
+    rw [if_neg hj]
+
+theorem getItemL_of_nonneg {α : Type} (x : List α) {i : Int} (h0 : 0 ≤ i) (h : i.toNat < x.length) :
+    getItemL x i = .ok x[i.toNat] := by
+  rw [getItemL_eq, dif_pos (by omega)]
+  simp only [if_neg (show ¬ i < 0 by omega)]
+
+theorem getItemL_of_neg {α : Type} (x : List α) {i : Int} (h0 : i < 0) (h : (-i).toNat ≤ x.length) :
+    getItemL x i = .ok (x[x.length - (-i).toNat]'(by omega)) := by
+  rw [getItemL_eq, dif_pos (by omega)]
+  simp only [if_pos h0]
+  congr 2
+  omega
+
+theorem getItemL_natCast {α : Type} (x : List α) (k : Nat) (h : k < x.length) : getItemL x (k : Int) = .ok x[k] := by
+  rw [getItemL_of_nonneg x (by omega) (by simpa using h)]; simp
+
+theorem getItemL_error {α : Type} (x : List α) (i : Int) (e : Exc) (h : getItemL x i = .error e) : e = .indexError := by
+  rw [getItemL_eq] at h
+  split at h
+  · cases h
+  · cases h; rfl
+
+theorem getItemL_ok_iff {α : Type} (x : List α) (i : Int) :
+    (∃ v, getItemL x i = .ok v) ↔ -(x.length : Int) ≤ i ∧ i < x.length := by
+  rw [getItemL_eq]
+  constructor
+  · rintro ⟨v, hv⟩
+    split at hv
+    · assumption
+    · cases hv
+  · intro h
+    rw [dif_pos h]
+    exact ⟨_, rfl⟩
+
+theorem getItemL_ok_mem {α : Type} {x : List α} {i : Int} {v : α} (h : getItemL x i = .ok v) : v ∈ x := by
+  rw [getItemL_eq] at h
+  split at h
+  · cases h; exact List.getElem_mem _
+  · cases h
+
+theorem getItemL_zero {α : Type} (x : List α) (h : x ≠ []) : getItemL x 0 = .ok (x.head h) := by
+  cases x with
+  | nil => exact absurd rfl h
+  | cons a t => rw [getItemL_of_nonneg _ (by omega) (by simp)]; rfl
+
+theorem getItemL_neg_one {α : Type} (x : List α) (h : x ≠ []) : getItemL x (-1) = .ok (x.getLast h) := by
+  have hl : 0 < x.length := List.length_pos_iff.mpr h
+  rw [getItemL_of_neg x (by omega) (by simp; omega), List.getLast_eq_getElem]
+  congr 1
+
+theorem getItem_eq (s : Str) (i : Int) :
+    getItem s i = match getItemL s i with | .ok c => .ok [c] | .error e => .error e := rfl
+
+theorem getItem_of_getItemL {s : Str} {i : Int} {c : Nat} (h : getItemL s i = .ok c) : getItem s i = .ok [c] := by
+  rw [getItem_eq, h]
+
+theorem getItem_zero (s : Str) (h : s ≠ []) : getItem s 0 = .ok [s.head h] :=
+  getItem_of_getItemL (getItemL_zero s h)
+
+theorem getItem_neg_one (s : Str) (h : s ≠ []) : getItem s (-1) = .ok [s.getLast h] :=
+  getItem_of_getItemL (getItemL_neg_one s h)
+
+theorem getItem_of_nonneg (s : Str) {i : Int} (h0 : 0 ≤ i) (h : i.toNat < s.length) :
+    getItem s i = .ok [s[i.toNat]] := getItem_of_getItemL (getItemL_of_nonneg s h0 h)
+
+theorem getItem_of_neg (s : Str) {i : Int} (h0 : i < 0) (h : (-i).toNat ≤ s.length) :
+    getItem s i = .ok [s[s.length - (-i).toNat]'(by omega)] := getItem_of_getItemL (getItemL_of_neg s h0 h)
+
+theorem getItem_error (s : Str) (i : Int) (e : Exc) (h : getItem s i = .error e) : e = .indexError := by
+  rw [getItem_eq] at h
+  cases h' : getItemL s i with
+  | ok c => rw [h'] at h; cases h
+  | error e' => rw [h'] at h; cases h; exact getItemL_error s i _ h'
+
+theorem getItem_ok_iff (s : Str) (i : Int) :
+    (∃ v, getItem s i = .ok v) ↔ -(s.length : Int) ≤ i ∧ i < s.length := by
+  rw [← getItemL_ok_iff, getItem_eq]
+  cases getItemL s i <;> simp
+
+/-- `s[i]` is the one-character slice `s[i:i+1]` (`0 ≤ i`) -/
+theorem getItem_eq_slice (s : Str) {i : Int} (h0 : 0 ≤ i) (h : i < s.length) :
+    getItem s i = .ok (slice s (some i) (some (i + 1))) := by
+  rw [getItem_of_nonneg s h0 (by omega), slice_nonneg_nonneg s h0 (by omega)]
+  have e : (i + 1).toNat - i.toNat = 1 := by omega
+  rw [e, List.take_one, List.head?_drop, List.getElem?_eq_getElem (by omega)]
+  rfl
+
+/-- `s[-k]` is the one-character slice `s[-k:-k+1]` for `k ≥ 2`, and `s[-1:]` for `k = 1` -/
+theorem getItem_neg_one_eq_slice (s : Str) (h : s ≠ []) : getItem s (-1) = .ok (slice s (some (-1)) none) := by
+  rw [getItem_neg_one s h, slice_neg_none s (by omega)]
+  show _ = Except.ok (s.drop (s.length - 1))
+  have hl : 0 < s.length := List.length_pos_iff.mpr h
+  rw [List.drop_eq_getElem_cons (by omega), List.drop_of_length_le (by omega), List.getLast_eq_getElem]
+
+/-- the character returned by a successful `s[i]` is a character of `s` -/
+theorem getItem_ok_mem {s : Str} {i : Int} {r : Str} (h : getItem s i = .ok r) : ∃ c ∈ s, r = [c] := by
+  rw [getItem_eq] at h
+  cases h' : getItemL s i with
+  | error e => rw [h'] at h; cases h
+  | ok c =>
+    rw [h'] at h; cases h
+    exact ⟨c, getItemL_ok_mem h', rfl⟩
+
+theorem getItem_ok_length {s : Str} {i : Int} {r : Str} (h : getItem s i = .ok r) : r.length = 1 := by
+  obtain ⟨c, _, rfl⟩ := getItem_ok_mem h; rfl
+
+/-! ## `everyNth`, `sliceStepL` -/
+
+theorem mem_everyNthGo {α : Type} {k : Nat} {c : α} : ∀ {l : List α} {j : Nat}, c ∈ everyNthGo k l j → c ∈ l
+  | [], _, h => by simp [everyNthGo] at h
+  | a :: t, 0, h => by
+    simp only [everyNthGo, List.mem_cons] at h ⊢
+    rcases h with h | h
+    · exact Or.inl h
+    · exact Or.inr (mem_everyNthGo h)
+  | a :: t, j + 1, h => by
+    simp only [everyNthGo] at h
+    exact List.mem_cons_of_mem _ (mem_everyNthGo h)
+
+@[grind →] theorem mem_everyNth {α : Type} {k : Nat} {l : List α} {c : α} (h : c ∈ everyNth k l) : c ∈ l :=
+  mem_everyNthGo h
+
+@[grind →] theorem mem_sliceStepL {α : Type} {x : List α} {a b : Option Int} {k : Nat} {c : α}
+    (h : c ∈ sliceStepL x a b k) : c ∈ x := mem_sliceL (mem_everyNth h)
+
+@[simp, grind ←] theorem AllIn.everyNth {p : Nat → Bool} {s : Str} (h : AllIn p s) (k : Nat) : AllIn p (Py.everyNth k s) :=
+  h.of_subset (fun _ hc => mem_everyNth hc)
+
+@[simp, grind ←] theorem AllIn.sliceStepL {p : Nat → Bool} {s : Str} (h : AllIn p s) (a b : Option Int) (k : Nat) :
+    AllIn p (Py.sliceStepL s a b k) := h.of_subset (fun _ hc => mem_sliceStepL hc)
+
+@[simp] theorem everyNth_nil {α : Type} (k : Nat) : everyNth k ([] : List α) = [] := rfl
+
+theorem everyNthGo_length_le {α : Type} (k : Nat) : ∀ (l : List α) (j : Nat), (everyNthGo k l j).length ≤ l.length
+  | [], _ => by simp [everyNthGo]
+  | a :: t, 0 => by simp only [everyNthGo, List.length_cons]; have := everyNthGo_length_le k t (k - 1); omega
+  | a :: t, j + 1 => by simp only [everyNthGo, List.length_cons]; have := everyNthGo_length_le k t j; omega
+
+@[grind .] theorem everyNth_length_le {α : Type} (k : Nat) (l : List α) : (everyNth k l).length ≤ l.length :=
+  everyNthGo_length_le k l 0
+
+@[grind .] theorem sliceStepL_length_le {α : Type} (x : List α) (a b : Option Int) (k : Nat) :
+    (sliceStepL x a b k).length ≤ x.length :=
+  Nat.le_trans (everyNth_length_le k _) (sliceL_length_le x a b)
+
+/-- the old recursive equation -/
+theorem everyNthGo_eq_drop {α : Type} (k : Nat) : ∀ (l : List α) (j : Nat), everyNthGo k l j = everyNthGo k (l.drop j) 0
+  | [], j => by simp [everyNthGo]
+  | a :: t, 0 => rfl
+  | a :: t, j + 1 => by rw [everyNthGo, List.drop_succ_cons]; exact everyNthGo_eq_drop k t j
+
+theorem everyNth_cons {α : Type} (k : Nat) (a : α) (t : List α) :
+    everyNth k (a :: t) = a :: everyNth k (t.drop (k - 1)) := by
+  unfold everyNth
+  rw [everyNthGo, everyNthGo_eq_drop]
+
+@[simp] theorem everyNth_one {α : Type} (l : List α) : everyNth 1 l = l := by
+  induction l with
+  | nil => rfl
+  | cons a t ih => rw [everyNth_cons]; simpa using ih
+
+/-- exact length: `⌈(n - j) / k⌉` -/
+theorem everyNthGo_length {α : Type} (k : Nat) (hk : 0 < k) :
+    ∀ (l : List α) (j : Nat), (everyNthGo k l j).length = (l.length - j + (k - 1)) / k
+  | [], j => by
+    simp only [everyNthGo, List.length_nil, Nat.zero_sub, Nat.zero_add]
+    exact (Nat.div_eq_of_lt (by omega)).symm
+  | a :: t, 0 => by
+    simp only [everyNthGo, List.length_cons, everyNthGo_length k hk t (k - 1), Nat.sub_zero]
+    by_cases h : k - 1 ≤ t.length
+    · have e : t.length + 1 + (k - 1) = (t.length - (k - 1) + (k - 1)) + k := by omega
+      rw [e, Nat.add_div_right _ hk]
+    · have e1 : t.length - (k - 1) = 0 := by omega
+      rw [e1, Nat.zero_add, Nat.div_eq_of_lt (by omega)]
+      have e : t.length + 1 + (k - 1) = t.length + k := by omega
+      rw [e, Nat.add_div_right _ hk, Nat.div_eq_of_lt (by omega)]
+  | a :: t, j + 1 => by
+    simp only [everyNthGo, List.length_cons, everyNthGo_length k hk t j]
+    congr 2
+    omega
+
+theorem everyNth_length {α : Type} {k : Nat} (hk : 0 < k) (l : List α) :
+    (everyNth k l).length = (l.length + (k - 1)) / k := by
+  unfold everyNth; rw [everyNthGo_length k hk]; simp
+
+example : sliceStepL [0, 1, 2, 3, 4, 5, 6] (some 1) none 2 = [1, 3, 5] := by decide
+example : (everyNth 3 [0, 1, 2, 3, 4, 5, 6]).length = 3 := by rw [everyNth_length (by omega)]; rfl
+
+
+
+/-! ## `enumerate`, `zip3`, `range`, `rangeStep`, `sumInt` -/
+
+@[simp, grind =] theorem enumerate_nil {α : Type} (k : Int) : enumerate ([] : List α) k = [] := rfl
+@[simp, grind =] theorem enumerate_cons {α : Type} (a : α) (t : List α) (k : Int) :
+    enumerate (a :: t) k = (k, a) :: enumerate t (k + 1) := rfl
+
+@[simp, grind =] theorem enumerate_length {α : Type} (l : List α) (k : Int) : (enumerate l k).length = l.length := by
+  induction l generalizing k with
+  | nil => rfl
+  | cons a t ih => simp [ih]
+
+theorem enumerate_append {α : Type} (l m : List α) (k : Int) :
+    enumerate (l ++ m) k = enumerate l k ++ enumerate m (k + l.length) := by
+  induction l generalizing k with
+  | nil => simp
+  | cons a t ih =>
+    simp only [List.cons_append, enumerate_cons, ih, List.length_cons, List.cons.injEq, true_and]
+    congr 2
+    omega
+
+@[simp] theorem enumerate_map_snd {α : Type} (l : List α) (k : Int) : (enumerate l k).map (·.2) = l := by
+  induction l generalizing k with
+  | nil => rfl
+  | cons a t ih => simp [ih]
+
+theorem getElem?_enumerate {α : Type} (l : List α) (k : Int) (i : Nat) :
+    (enumerate l k)[i]? = l[i]?.map (fun a => (k + i, a)) := by
+  induction l generalizing k i with
+  | nil => simp
+  | cons a t ih =>
+    cases i with
+    | zero => simp
+    | succ i =>
+      simp only [enumerate_cons, List.getElem?_cons_succ, ih]
+      cases t[i]? <;> simp
+      omega
+
+theorem mem_enumerate_iff {α : Type} {l : List α} {k : Int} {p : Int × α} :
+    p ∈ enumerate l k ↔ ∃ i : Nat, p.1 = k + i ∧ l[i]? = some p.2 := by
+  induction l generalizing k with
+  | nil => simp
+  | cons a t ih =>
+    simp only [enumerate_cons, List.mem_cons, ih]
+    constructor
+    · rintro (rfl | ⟨i, h1, h2⟩)
+      · exact ⟨0, by simp, by simp⟩
+      · exact ⟨i + 1, by rw [h1]; simp; omega, by simpa using h2⟩
+    · rintro ⟨i, h1, h2⟩
+      cases i with
+      | zero =>
+        left
+        simp at h1 h2
+        exact Prod.ext h1 h2.symm
+      | succ i =>
+        right
+        exact ⟨i, by rw [h1]; simp; omega, by simpa using h2⟩
+
+/-- the projection form used by the verification conditions -/
+@[grind →] theorem mem_enumerate {α : Type} {l : List α} {k : Int} {p : Int × α} (h : p ∈ enumerate l k) :
+    p.2 ∈ l ∧ k ≤ p.1 ∧ p.1 < k + l.length := by
+  obtain ⟨i, h1, h2⟩ := mem_enumerate_iff.mp h
+  have hi : i < l.length := by
+    rcases Nat.lt_or_ge i l.length with h | h
+    · exact h
+    · rw [List.getElem?_eq_none h] at h2; cases h2
+  exact ⟨List.mem_of_getElem? h2, by omega, by omega⟩
+
+theorem mem_enumerate' {α : Type} {l : List α} {k : Int} {i : Int} {a : α} (h : (i, a) ∈ enumerate l k) :
+    a ∈ l ∧ k ≤ i ∧ i < k + l.length := mem_enumerate h
+
+@[simp] theorem zip3_nil_left {α β γ : Type} (y : List β) (z : List γ) : zip3 ([] : List α) y z = [] := by
+  simp [zip3]
+
+theorem zip3_cons {α β γ : Type} (a : α) (x : List α) (b : β) (y : List β) (c : γ) (z : List γ) :
+    zip3 (a :: x) (b :: y) (c :: z) = (a, b, c) :: zip3 x y z := rfl
+
+@[grind →] theorem mem_zip3 {α β γ : Type} {x : List α} {y : List β} {z : List γ} {p : α × β × γ}
+    (h : p ∈ zip3 x y z) : p.1 ∈ x ∧ p.2.1 ∈ y ∧ p.2.2 ∈ z := by
+  induction x generalizing y z with
+  | nil => simp at h
+  | cons a x ih =>
+    cases y with
+    | nil => simp [zip3] at h
+    | cons b y =>
+      cases z with
+      | nil => simp [zip3] at h
+      | cons c z =>
+        rw [zip3_cons, List.mem_cons] at h
+        rcases h with rfl | h
+        · simp
+        · have := ih h
+          simp [this]
+
+theorem zip3_length {α β γ : Type} (x : List α) (y : List β) (z : List γ) :
+    (zip3 x y z).length = min x.length (min y.length z.length) := by
+  induction x generalizing y z with
+  | nil => simp
+  | cons a x ih =>
+    cases y with
+    | nil => simp [zip3]
+    | cons b y =>
+      cases z with
+      | nil => simp [zip3]
+      | cons c z => simp only [zip3_cons, List.length_cons, ih]; omega
+
+@[simp, grind =] theorem mem_range {a b i : Int} : i ∈ range a b ↔ a ≤ i ∧ i < b := by
+  simp only [range, List.mem_map, List.mem_range]
+  constructor
+  · rintro ⟨j, hj, rfl⟩; omega
+  · intro h; exact ⟨(i - a).toNat, by omega, by omega⟩
+
+@[simp, grind =] theorem range_length (a b : Int) : (range a b).length = (b - a).toNat := by simp [range]
+
+theorem range_eq_nil {a b : Int} (h : b ≤ a) : range a b = [] := by
+  have : (b - a).toNat = 0 := by omega
+  simp [range, this]
+
+/-- elements of `range(a, b, k)`, `k > 0`: in `[a, b)`, congruent to `a` -/
+theorem mem_rangeStep_pos {a b k i : Int} (hk : 0 < k) (h : i ∈ rangeStep a b k) :
+    a ≤ i ∧ i < b ∧ ∃ j : Nat, i = a + j * k := by
+  unfold rangeStep at h
+  rw [if_pos hk] at h
+  simp only [List.mem_map, List.mem_range] at h
+  obtain ⟨j, hj, rfl⟩ := h
+  have h1 : ((j : Int) + 1) ≤ (b - a + k - 1) / k := by omega
+  have h2 := (Int.le_ediv_iff_mul_le hk).mp h1
+  have h3 : ((j : Int) + 1) * k = j * k + k := by rw [Int.add_mul, Int.one_mul]
+  have h4 : 0 ≤ (j : Int) * k := Int.mul_nonneg (by omega) (by omega)
+  exact ⟨by omega, by omega, j, rfl⟩
+
+/-- elements of `range(a, b, k)`, `k < 0`: in `(b, a]` -/
+theorem mem_rangeStep_neg {a b k i : Int} (hk : k < 0) (h : i ∈ rangeStep a b k) :
+    b < i ∧ i ≤ a ∧ ∃ j : Nat, i = a + j * k := by
+  unfold rangeStep at h
+  rw [if_neg (by omega), if_pos hk] at h
+  simp only [List.mem_map, List.mem_range] at h
+  obtain ⟨j, hj, rfl⟩ := h
+  have hk' : 0 < -k := by omega
+  have h1 : ((j : Int) + 1) ≤ (a - b - k - 1) / (-k) := by omega
+  have h2 := (Int.le_ediv_iff_mul_le hk').mp h1
+  have h3 : ((j : Int) + 1) * (-k) = -(j * k) - k := by
+    rw [Int.add_mul, Int.one_mul, Int.mul_neg]; omega
+  have h4 : 0 ≤ (j : Int) * (-k) := Int.mul_nonneg (by omega) (by omega)
+  rw [Int.mul_neg] at h4
+  exact ⟨by omega, by omega, j, rfl⟩
+
+@[grind →] theorem mem_rangeStep {a b k i : Int} (h : i ∈ rangeStep a b k) :
+    (0 < k ∧ a ≤ i ∧ i < b) ∨ (k < 0 ∧ b < i ∧ i ≤ a) := by
+  rcases Int.lt_trichotomy k 0 with hk | hk | hk
+  · right; have := mem_rangeStep_neg hk h; exact ⟨hk, this.1, this.2.1⟩
+  · subst hk; simp [rangeStep] at h
+  · left; have := mem_rangeStep_pos hk h; exact ⟨hk, this.1, this.2.1⟩
+
+theorem rangeStep_length_pos {a b k : Int} (hk : 0 < k) : (rangeStep a b k).length = ((b - a + k - 1) / k).toNat := by
+  simp [rangeStep, hk]
+
+theorem rangeStep_length_neg {a b k : Int} (hk : k < 0) : (rangeStep a b k).length = ((a - b - k - 1) / (-k)).toNat := by
+  have : ¬ k > 0 := by omega
+  simp [rangeStep, hk, this]
+
+@[simp] theorem sumInt_nil : sumInt [] = 0 := rfl
+
+theorem sumInt_foldl (l : List Int) (acc : Int) : l.foldl (· + ·) acc = acc + sumInt l := by
+  unfold sumInt
+  induction l generalizing acc with
+  | nil => simp
+  | cons a t ih => simp only [List.foldl_cons]; rw [ih, ih (0 + a)]; omega
+
+@[simp] theorem sumInt_cons (a : Int) (t : List Int) : sumInt (a :: t) = a + sumInt t := by
+  show List.foldl (· + ·) (0 + a) t = _
+  rw [sumInt_foldl]; omega
+
+@[simp] theorem sumInt_append (l m : List Int) : sumInt (l ++ m) = sumInt l + sumInt m := by
+  induction l with
+  | nil => simp
+  | cons a t ih => simp [ih]; omega
+
+theorem sumInt_eq_sum (l : List Int) : sumInt l = l.sum := by
+  induction l with
+  | nil => rfl
+  | cons a t ih => simp [ih]
+
+theorem sumInt_nonneg {l : List Int} (h : ∀ x ∈ l, 0 ≤ x) : 0 ≤ sumInt l := by
+  induction l with
+  | nil => simp
+  | cons a t ih =>
+    have := h a (by simp)
+    have := ih (fun x hx => h x (by simp [hx]))
+    simp; omega
+
+/-- a sum of `n` terms each in `[lo, hi]` -/
+theorem sumInt_bounds {l : List Int} {lo hi : Int} (h : ∀ x ∈ l, lo ≤ x ∧ x ≤ hi) :
+    lo * l.length ≤ sumInt l ∧ sumInt l ≤ hi * l.length := by
+  induction l with
+  | nil => simp
+  | cons a t ih =>
+    have ha := h a (by simp)
+    have := ih (fun x hx => h x (by simp [hx]))
+    simp only [sumInt_cons, List.length_cons, Int.natCast_add, Int.natCast_one, Int.mul_add, Int.mul_one]
+    omega
+
+example : enumerate [10, 20, 30] 1 = [(1, 10), (2, 20), (3, 30)] := by decide
+example : rangeStep 0 6 2 = [0, 2, 4] := by decide
+example : rangeStep (-1) (-7) (-3) = [-1, -4] := by decide
+example : 4 ∈ rangeStep 0 6 2 := by decide
+
+
 
 /-! ## `chars`, `join` -/
 
@@ -20,11 +814,19 @@ theorem AllIn.nil {p : Nat → Bool} : AllIn p [] := by simp [AllIn]
 @[simp, grind =] theorem chars_reverse (s : Str) : chars s.reverse = (chars s).reverse := by simp [chars]
 @[simp, grind =] theorem chars_length (s : Str) : (chars s).length = s.length := by simp [chars]
 
-@[simp] theorem mem_chars {x : Str} {s : Str} : x ∈ chars s ↔ ∃ c ∈ s, x = [c] := by
+@[simp, grind =] theorem mem_chars {x : Str} {s : Str} : x ∈ chars s ↔ ∃ c ∈ s, x = [c] := by
   simp only [chars, List.mem_map]
   constructor
   · rintro ⟨c, hc, rfl⟩; exact ⟨c, hc, rfl⟩
   · rintro ⟨c, hc, rfl⟩; exact ⟨c, hc, rfl⟩
+
+theorem length_of_mem_chars {x : Str} {s : Str} (h : x ∈ chars s) : x.length = 1 := by
+  obtain ⟨c, _, rfl⟩ := mem_chars.mp h; rfl
+
+theorem getElem?_chars (s : Str) (i : Nat) : (chars s)[i]? = s[i]?.map (fun c => [c]) := by simp [chars]
+
+theorem chars_take (s : Str) (n : Nat) : chars (s.take n) = (chars s).take n := by simp [chars, List.map_take]
+theorem chars_drop (s : Str) (n : Nat) : chars (s.drop n) = (chars s).drop n := by simp [chars, List.map_drop]
 
 @[simp, grind =] theorem join_nil_left (l : List Str) : join [] l = l.flatten := by
   induction l with
@@ -44,6 +846,280 @@ theorem join_nil (l : List Str) : join [] l = l.flatten := join_nil_left l
 theorem join_nil_chars (s : Str) : join [] (chars s) = s := by
   rw [join_nil, flatten_chars]
 
+@[simp] theorem join_empty (sep : Str) : join sep [] = [] := rfl
+@[simp] theorem join_singleton (sep a : Str) : join sep [a] = a := rfl
+theorem join_cons_cons (sep a b : Str) (t : List Str) : join sep (a :: b :: t) = a ++ sep ++ join sep (b :: t) := rfl
+
+theorem join_cons_of_ne_nil (sep a : Str) {t : List Str} (h : t ≠ []) : join sep (a :: t) = a ++ sep ++ join sep t := by
+  cases t with
+  | nil => exact absurd rfl h
+  | cons b t => rfl
+
+@[grind →] theorem mem_join {sep : Str} {l : List Str} {c : Nat} (h : c ∈ join sep l) : c ∈ sep ∨ ∃ x ∈ l, c ∈ x := by
+  induction l with
+  | nil => simp at h
+  | cons a t ih =>
+    cases t with
+    | nil => exact Or.inr ⟨a, by simp, by simpa using h⟩
+    | cons b t =>
+      rw [join_cons_cons, List.mem_append, List.mem_append] at h
+      rcases h with (h | h) | h
+      · exact Or.inr ⟨a, by simp, h⟩
+      · exact Or.inl h
+      · rcases ih h with h | ⟨x, hx, hc⟩
+        · exact Or.inl h
+        · exact Or.inr ⟨x, List.mem_cons_of_mem _ hx, hc⟩
+
+/-- `join` only needs the separator when there are at least two parts -/
+theorem AllIn.join {p : Nat → Bool} {sep : Str} {l : List Str} (hl : ∀ x ∈ l, AllIn p x)
+    (hsep : AllIn p sep ∨ l.length ≤ 1) : AllIn p (Py.join sep l) := by
+  rcases hsep with hsep | hlen
+  · intro c hc
+    rcases mem_join hc with h | ⟨x, hx, hcx⟩
+    · exact hsep c h
+    · exact hl x hx c hcx
+  · match l, hlen, hl with
+    | [], _, _ => simp
+    | [a], _, hl => simpa using hl a (by simp)
+    | _ :: _ :: _, hlen, _ => simp at hlen
+
+theorem join_length (sep : Str) (l : List Str) :
+    (join sep l).length = (l.map List.length).sum + (l.length - 1) * sep.length := by
+  induction l with
+  | nil => simp
+  | cons a t ih =>
+    cases t with
+    | nil => simp
+    | cons b t =>
+      rw [join_cons_cons, List.length_append, List.length_append, ih]
+      simp only [List.map_cons, List.sum_cons, List.length_cons, Nat.add_sub_cancel]
+      rw [Nat.add_mul, Nat.one_mul]
+      omega
+
+theorem join_ne_nil {sep : Str} {l : List Str} (h : ∃ x ∈ l, x ≠ []) : join sep l ≠ [] := by
+  obtain ⟨x, hx, hne⟩ := h
+  induction l with
+  | nil => simp at hx
+  | cons a t ih =>
+    cases t with
+    | nil => simp at hx; subst hx; simpa using hne
+    | cons b t =>
+      rw [join_cons_cons]
+      rcases List.mem_cons.mp hx with rfl | hx
+      · simp [hne]
+      · have := ih hx; simp [this]
+
+/-! ## building: `zfill`, `rjust`, `ljust`, `repeatStr` -/
+
+theorem zfill_eq_of_head {s : Str} (w : Int) (h : ∀ c, s.head? = some c → c ≠ 43 ∧ c ≠ 45) :
+    zfill s w = List.replicate (w.toNat - s.length) 48 ++ s := by
+  unfold zfill
+  split
+  · exact absurd rfl (h 43 rfl).1
+  · exact absurd rfl (h 45 rfl).2
+  · rfl
+
+theorem zfill_of_digits {s : Str} (h : AllIn isAsciiDigit s) (w : Int) :
+    zfill s w = List.replicate (w.toNat - s.length) 48 ++ s := by
+  apply zfill_eq_of_head
+  intro c hc
+  have := h c (List.mem_of_mem_head? hc)
+  simp only [isAsciiDigit, Bool.and_eq_true, decide_eq_true_eq] at this
+  omega
+
+@[simp] theorem zfill_nil (w : Int) : zfill [] w = List.replicate w.toNat 48 := by
+  rw [zfill_eq_of_head w (by simp)]; simp
+
+theorem zfill_eq_self {s : Str} {w : Int} (h : w ≤ s.length) : zfill s w = s := by
+  have e : w.toNat - s.length = 0 := by omega
+  unfold zfill
+  simp only [e, List.replicate_zero, List.nil_append]
+  split <;> rfl
+
+@[simp, grind =] theorem zfill_length (s : Str) (w : Int) : (zfill s w).length = max s.length w.toNat := by
+  unfold zfill
+  split <;> simp <;> omega
+
+@[grind →] theorem mem_zfill {s : Str} {w : Int} {c : Nat} (h : c ∈ zfill s w) : c ∈ s ∨ c = 48 := by
+  unfold zfill at h
+  split at h
+  · simp only [List.mem_cons, List.mem_append, List.mem_replicate] at h ⊢
+    rcases h with h | ⟨_, h⟩ | h
+    · exact Or.inl (Or.inl h)
+    · exact Or.inr h
+    · exact Or.inl (Or.inr h)
+  · simp only [List.mem_cons, List.mem_append, List.mem_replicate] at h ⊢
+    rcases h with h | ⟨_, h⟩ | h
+    · exact Or.inl (Or.inl h)
+    · exact Or.inr h
+    · exact Or.inl (Or.inr h)
+  · simp only [List.mem_append, List.mem_replicate] at h
+    rcases h with ⟨_, h⟩ | h
+    · exact Or.inr h
+    · exact Or.inl h
+
+/-- `zfill` keeps a leading sign, so nothing but `'0'` is added -/
+theorem AllIn.zfill {p : Nat → Bool} {s : Str} (h : AllIn p s) (h0 : p 48 = true) (w : Int) : AllIn p (Py.zfill s w) := by
+  intro c hc
+  rcases mem_zfill hc with h' | rfl
+  · exact h c h'
+  · exact h0
+
+theorem zfill_ne_nil {s : Str} {w : Int} (h : s ≠ [] ∨ 0 < w) : zfill s w ≠ [] := by
+  apply ne_nil_of_length_eq (zfill_length s w)
+  rcases h with h | h
+  · have := List.length_pos_iff.mpr h; omega
+  · omega
+
+theorem rjust_length (s : Str) (w : Int) (fill : Str) : (rjust s w fill).length = max s.length w.toNat := by
+  simp [rjust]; omega
+
+theorem ljust_length (s : Str) (w : Int) (fill : Str) : (ljust s w fill).length = max s.length w.toNat := by
+  simp [ljust]; omega
+
+@[grind →] theorem mem_rjust {s fill : Str} {w : Int} {c : Nat} (h : c ∈ rjust s w fill) : c ∈ s ∨ c = fill.headD 32 := by
+  simp only [rjust, List.mem_append, List.mem_replicate] at h
+  rcases h with ⟨_, h⟩ | h
+  · exact Or.inr h
+  · exact Or.inl h
+
+@[grind →] theorem mem_ljust {s fill : Str} {w : Int} {c : Nat} (h : c ∈ ljust s w fill) : c ∈ s ∨ c = fill.headD 32 := by
+  simp only [ljust, List.mem_append, List.mem_replicate] at h
+  rcases h with h | ⟨_, h⟩
+  · exact Or.inl h
+  · exact Or.inr h
+
+theorem AllIn.rjust {p : Nat → Bool} {s : Str} (h : AllIn p s) {fill : Str} (hf : p (fill.headD 32) = true) (w : Int) :
+    AllIn p (Py.rjust s w fill) := by
+  intro c hc
+  rcases mem_rjust hc with h' | rfl
+  · exact h c h'
+  · exact hf
+
+theorem AllIn.ljust {p : Nat → Bool} {s : Str} (h : AllIn p s) {fill : Str} (hf : p (fill.headD 32) = true) (w : Int) :
+    AllIn p (Py.ljust s w fill) := by
+  intro c hc
+  rcases mem_ljust hc with h' | rfl
+  · exact h c h'
+  · exact hf
+
+theorem rjust_eq_self {s fill : Str} {w : Int} (h : w ≤ s.length) : rjust s w fill = s := by
+  have e : w.toNat - s.length = 0 := by omega
+  simp [rjust, e]
+
+theorem ljust_eq_self {s fill : Str} {w : Int} (h : w ≤ s.length) : ljust s w fill = s := by
+  have e : w.toNat - s.length = 0 := by omega
+  simp [ljust, e]
+
+@[grind →] theorem mem_repeatStr {s : Str} {n : Int} {c : Nat} (h : c ∈ repeatStr s n) : c ∈ s := by
+  simp only [repeatStr, List.mem_flatten, List.mem_replicate] at h
+  obtain ⟨l, ⟨_, rfl⟩, hc⟩ := h
+  exact hc
+
+@[simp, grind ←] theorem AllIn.repeatStr {p : Nat → Bool} {s : Str} (h : AllIn p s) (n : Int) : AllIn p (Py.repeatStr s n) :=
+  h.of_subset (fun _ hc => mem_repeatStr hc)
+
+@[simp] theorem repeatStr_length (s : Str) (n : Int) : (repeatStr s n).length = n.toNat * s.length := by
+  simp [repeatStr, List.length_flatten]
+
+theorem repeatStr_single (c : Nat) (n : Int) : repeatStr [c] n = List.replicate n.toNat c := by
+  unfold repeatStr
+  induction n.toNat with
+  | zero => rfl
+  | succ k ih => simp [List.replicate_succ, ih]
+
+/-! ## `replace` -/
+
+theorem mem_replaceGo {old new : Str} {c : Nat} :
+    ∀ {x : Str} {k : Nat}, c ∈ replaceGo old new x k → c ∈ x ∨ c ∈ new
+  | [], _, h => by simp [replaceGo] at h
+  | a :: t, 0, h => by
+    rw [replaceGo] at h
+    split at h
+    · rcases List.mem_append.mp h with h | h
+      · exact Or.inr h
+      · rcases mem_replaceGo h with h | h
+        · exact Or.inl (List.mem_cons_of_mem _ h)
+        · exact Or.inr h
+    · rcases List.mem_cons.mp h with rfl | h
+      · exact Or.inl (by simp)
+      · rcases mem_replaceGo h with h | h
+        · exact Or.inl (List.mem_cons_of_mem _ h)
+        · exact Or.inr h
+  | a :: t, k + 1, h => by
+    rw [replaceGo] at h
+    rcases mem_replaceGo h with h | h
+    · exact Or.inl (List.mem_cons_of_mem _ h)
+    · exact Or.inr h
+
+@[grind →] theorem mem_replace {x old new : Str} {c : Nat} (h : c ∈ replace x old new) : c ∈ x ∨ c ∈ new := by
+  unfold replace at h
+  split at h
+  · simp only [List.mem_append, List.mem_flatten, List.mem_map] at h
+    rcases h with h | ⟨l, ⟨a, ha, rfl⟩, hc⟩
+    · exact Or.inr h
+    · rcases List.mem_cons.mp hc with rfl | hc
+      · exact Or.inl ha
+      · exact Or.inr hc
+  · exact mem_replaceGo h
+
+theorem AllIn.replace {p : Nat → Bool} {x : Str} (hx : AllIn p x) {new : Str} (hn : AllIn p new) (old : Str) :
+    AllIn p (Py.replace x old new) := by
+  intro c hc
+  rcases mem_replace hc with h | h
+  · exact hx c h
+  · exact hn c h
+
+/-- replacing a single character -/
+theorem replace_single (x : Str) (c : Nat) (new : Str) :
+    replace x [c] new = x.flatMap (fun a => if a == c then new else [a]) := by
+  unfold replace
+  simp only [List.isEmpty_cons, Bool.false_eq_true, if_false]
+  induction x with
+  | nil => rfl
+  | cons a t ih =>
+    rw [replaceGo, List.flatMap_cons, ← ih]
+    by_cases h : a = c
+    · subst h; simp [List.isPrefixOf]
+    · have : (c == a) = false := by simpa using fun h' => h h'.symm
+      simp [List.isPrefixOf, this, h]
+
+/-- `x.replace(c, '')` deletes the character -/
+theorem replace_single_nil (x : Str) (c : Nat) : replace x [c] [] = x.filter (fun a => a != c) := by
+  rw [replace_single]
+  induction x with
+  | nil => rfl
+  | cons a t ih =>
+    rw [List.flatMap_cons, ih, List.filter_cons]
+    by_cases h : a = c <;> simp [h]
+
+theorem replace_length_le_of_nil (x old : Str) (h : old ≠ []) : (replace x old []).length ≤ x.length := by
+  unfold replace
+  have : old.isEmpty = false := by cases old <;> simp_all
+  simp only [this, Bool.false_eq_true, if_false]
+  suffices ∀ (x : Str) (k : Nat), (replaceGo old [] x k).length ≤ x.length from this x 0
+  intro x
+  induction x with
+  | nil => intro k; simp [replaceGo]
+  | cons a t ih =>
+    intro k
+    cases k with
+    | zero =>
+      rw [replaceGo]
+      split
+      · have := ih (old.length - 1); simp; omega
+      · have := ih 0; simp; omega
+    | succ k => rw [replaceGo]; have := ih k; simp; omega
+
+theorem replace_nil (old new : Str) (h : old ≠ []) : replace [] old new = [] := by
+  unfold replace
+  have : old.isEmpty = false := by cases old <;> simp_all
+  simp [this, replaceGo]
+
+example : replace [49, 45, 50, 45] [45] [] = [49, 50] := by decide
+example : replace [1, 1, 1] [1, 1] [7] = [7, 1] := by decide
+example : zfill [45, 53] 4 = [45, 48, 48, 53] := by decide
+
 /-! ## digit strings -/
 
 /-- non-empty and ASCII digits only -/
@@ -57,12 +1133,115 @@ theorem isDigitsB_iff (s : Str) : isDigitsB s = true ↔ IsDigits s := by
 
 instance (s : Str) : Decidable (IsDigits s) := decidable_of_iff _ (isDigitsB_iff s)
 
+theorem isDigitsB_eq_false_iff (s : Str) : isDigitsB s = false ↔ ¬ IsDigits s := by
+  rw [← isDigitsB_iff]; simp
+
+theorem IsDigits.ne_nil {s : Str} (h : IsDigits s) : s ≠ [] := h.1
+theorem IsDigits.allIn {s : Str} (h : IsDigits s) : AllIn isAsciiDigit s := h.2
+theorem IsDigits.length_pos {s : Str} (h : IsDigits s) : 0 < s.length := List.length_pos_iff.mpr h.1
+theorem IsDigits.mk' {s : Str} (h : AllIn isAsciiDigit s) (hl : 0 < s.length) : IsDigits s :=
+  ⟨List.length_pos_iff.mp hl, h⟩
+theorem isDigits_iff_length {s : Str} : IsDigits s ↔ 0 < s.length ∧ AllIn isAsciiDigit s := by
+  unfold IsDigits; rw [List.length_pos_iff]
+
+@[simp] theorem not_isDigits_nil : ¬ IsDigits [] := fun h => h.1 rfl
+@[simp] theorem isDigits_singleton {c : Nat} : IsDigits [c] ↔ isAsciiDigit c = true := by
+  simp [IsDigits]
+theorem isDigits_cons {c : Nat} {s : Str} : IsDigits (c :: s) ↔ isAsciiDigit c = true ∧ AllIn isAsciiDigit s := by
+  simp [IsDigits]
+
+theorem IsDigits.append {s t : Str} (hs : IsDigits s) (ht : AllIn isAsciiDigit t) : IsDigits (s ++ t) :=
+  ⟨by simp [hs.1], AllIn.append hs.2 ht⟩
+theorem IsDigits.append_left {s t : Str} (hs : AllIn isAsciiDigit s) (ht : IsDigits t) : IsDigits (s ++ t) :=
+  ⟨by simp [ht.1], AllIn.append hs ht.2⟩
+
+theorem IsDigits.zfill {s : Str} (h : IsDigits s) (w : Int) : IsDigits (Py.zfill s w) :=
+  ⟨zfill_ne_nil (Or.inl h.1), h.2.zfill rfl w⟩
+
+/-- a digit string of known length: slices with constant bounds inside it are digit strings -/
+theorem IsDigits.slice {s : Str} (h : AllIn isAsciiDigit s) {a b : Option Int}
+    (hne : loIdx s.length a < hiIdx s.length b) : IsDigits (Py.slice s a b) :=
+  ⟨by rw [Ne, slice_eq_nil_iff]; omega, h.slice a b⟩
+
+theorem isAsciiDigit_iff {c : Nat} : isAsciiDigit c = true ↔ 48 ≤ c ∧ c ≤ 57 := by simp
+
+theorem isAsciiDigit_lt_128 {c : Nat} (h : isAsciiDigit c = true) : c < 128 := by
+  simp at h; omega
+
+example : IsDigits [49, 50, 51] := by decide
+example : ¬ IsDigits [49, 65] := by decide
+
+
+
 /-! ## searching -/
+
+theorem isPrefixOf_iff {p s : Str} : p.isPrefixOf s = true ↔ ∃ t, s = p ++ t := by
+  rw [List.isPrefixOf_iff_prefix]
+  constructor
+  · rintro ⟨t, rfl⟩; exact ⟨t, rfl⟩
+  · rintro ⟨t, rfl⟩; exact ⟨t, rfl⟩
+
+theorem isSuffixOf_iff {p s : Str} : p.isSuffixOf s = true ↔ ∃ t, s = t ++ p := by
+  rw [List.isSuffixOf_iff_suffix]
+  constructor
+  · rintro ⟨t, rfl⟩; exact ⟨t, rfl⟩
+  · rintro ⟨t, rfl⟩; exact ⟨t, rfl⟩
+
+theorem startswith_iff {s p : Str} : startswith s p = true ↔ ∃ t, s = p ++ t := isPrefixOf_iff
+theorem endswith_iff {s p : Str} : endswith s p = true ↔ ∃ t, s = t ++ p := isSuffixOf_iff
+
+@[simp] theorem startswith_nil (s : Str) : startswith s [] = true := by simp [startswith]
+@[simp] theorem endswith_nil (s : Str) : endswith s [] = true := by simp [endswith]
+
+theorem startswith_length_le {s p : Str} (h : startswith s p = true) : p.length ≤ s.length := by
+  obtain ⟨t, rfl⟩ := startswith_iff.mp h; simp
+
+theorem endswith_length_le {s p : Str} (h : endswith s p = true) : p.length ≤ s.length := by
+  obtain ⟨t, rfl⟩ := endswith_iff.mp h; simp
+
+theorem startswith_eq_take {s p : Str} : startswith s p = true ↔ s.take p.length = p ∧ p.length ≤ s.length := by
+  rw [startswith_iff]
+  constructor
+  · rintro ⟨t, rfl⟩; simp
+  · rintro ⟨h, _⟩; exact ⟨s.drop p.length, by rw [← h, List.length_take, Nat.min_eq_left ‹_›, List.take_append_drop]⟩
+
+/-- the rest of the string after a prefix -/
+theorem slice_of_startswith {s p : Str} (h : startswith s p = true) :
+    s = p ++ slice s (some (p.length : Int)) none := by
+  obtain ⟨t, rfl⟩ := startswith_iff.mp h
+  rw [slice_nonneg_none _ (by omega)]
+  simp
+
+theorem slice_of_startswith' {s p t : Str} (h : s = p ++ t) : slice s (some (p.length : Int)) none = t := by
+  subst h
+  rw [slice_nonneg_none _ (by omega)]
+  simp
+
+theorem slice_startswith_prefix {s p : Str} (h : startswith s p = true) :
+    slice s none (some (p.length : Int)) = p := by
+  obtain ⟨t, rfl⟩ := startswith_iff.mp h
+  rw [slice_none_nonneg _ (by omega)]
+  simp
+
+theorem startswith_slice_prefix (s : Str) (k : Int) : startswith s (slice s none (some k)) = true := by
+  rw [startswith_iff]
+  exact ⟨slice s (some k) none, (slice_append_drop s k).symm⟩
+
+theorem startswithAny_iff {s : Str} {ps : List Str} : startswithAny s ps = true ↔ ∃ p ∈ ps, startswith s p = true := by
+  simp [startswithAny]
+
+theorem endswithAny_iff {s : Str} {ps : List Str} : endswithAny s ps = true ↔ ∃ p ∈ ps, endswith s p = true := by
+  simp [endswithAny]
+
+/-! ### `strIn` -/
 
 @[simp] theorem strIn_nil_right (sub : Str) : strIn sub [] = sub.isEmpty := rfl
 
 theorem strIn_cons (sub : Str) (c : Nat) (t : Str) :
     strIn sub (c :: t) = (sub.isPrefixOf (c :: t) || strIn sub t) := rfl
+
+@[simp, grind =] theorem strIn_nil (x : Str) : strIn [] x = true := by
+  cases x <;> simp [strIn_cons]
 
 @[simp, grind =] theorem strIn_single (c : Nat) (d : Str) : strIn [c] d = d.contains c := by
   induction d with
@@ -70,5 +1249,705 @@ theorem strIn_cons (sub : Str) (c : Nat) (t : Str) :
   | cons a t ih =>
     rw [strIn_cons, ih]
     by_cases h : c = a <;> simp [List.isPrefixOf, h]
+
+theorem strIn_single_iff {c : Nat} {d : Str} : strIn [c] d = true ↔ c ∈ d := by simp
+
+/-- `sub in x` ⇔ `x = a + sub + b` -/
+theorem strIn_iff {sub x : Str} : strIn sub x = true ↔ ∃ a b, x = a ++ sub ++ b := by
+  induction x with
+  | nil =>
+    simp only [strIn_nil_right, List.isEmpty_iff]
+    constructor
+    · rintro rfl; exact ⟨[], [], rfl⟩
+    · rintro ⟨a, b, h⟩
+      have := congrArg List.length h
+      simp at this
+      exact List.eq_nil_of_length_eq_zero (by omega)
+  | cons c t ih =>
+    rw [strIn_cons, Bool.or_eq_true, ih, isPrefixOf_iff]
+    constructor
+    · rintro (⟨b, h⟩ | ⟨a, b, h⟩)
+      · exact ⟨[], b, by simpa using h⟩
+      · exact ⟨c :: a, b, by simp [h]⟩
+    · rintro ⟨a, b, h⟩
+      cases a with
+      | nil => exact Or.inl ⟨b, by simpa using h⟩
+      | cons a0 a =>
+        simp only [List.cons_append, List.cons.injEq] at h
+        exact Or.inr ⟨a, b, h.2⟩
+
+theorem strIn_length_le {sub x : Str} (h : strIn sub x = true) : sub.length ≤ x.length := by
+  obtain ⟨a, b, rfl⟩ := strIn_iff.mp h; simp; omega
+
+theorem strIn_self (x : Str) : strIn x x = true := strIn_iff.mpr ⟨[], [], by simp⟩
+
+theorem strIn_of_startswith {s p : Str} (h : startswith s p = true) : strIn p s = true := by
+  obtain ⟨t, rfl⟩ := startswith_iff.mp h; exact strIn_iff.mpr ⟨[], t, by simp⟩
+
+theorem mem_of_strIn {sub x : Str} (h : strIn sub x = true) {c : Nat} (hc : c ∈ sub) : c ∈ x := by
+  obtain ⟨a, b, rfl⟩ := strIn_iff.mp h; simp [hc]
+
+/-- a one-character string (as produced by `getItem` / `chars`) is `in d` iff its character is -/
+theorem strIn_of_length_one {x d : Str} (h : x.length = 1) : strIn x d = d.contains (x.head (by intro h'; simp [h'] at h)) := by
+  match x, h with
+  | [c], _ => simp
+
+/-! ### `findAux`, `findFrom`, `find`, `index` -/
+
+theorem findAux_some {sub : Str} : ∀ {x : Str} {off i : Nat}, findAux sub x off = some i →
+    off ≤ i ∧ i + sub.length ≤ off + x.length ∧ sub.isPrefixOf (x.drop (i - off)) = true
+  | [], off, i, h => by
+    simp only [findAux] at h
+    split at h
+    · next he => cases h; simp_all
+    · cases h
+  | c :: t, off, i, h => by
+    rw [findAux] at h
+    split at h
+    · next hp =>
+      cases h
+      have := startswith_length_le (s := c :: t) hp
+      refine ⟨Nat.le_refl _, by simp at this ⊢; omega, by simpa using hp⟩
+    · have ⟨h1, h2, h3⟩ := findAux_some h
+      have e : i - off = (i - (off + 1)) + 1 := by omega
+      rw [e, List.drop_succ_cons]
+      simp only [List.length_cons]
+      exact ⟨by omega, by omega, h3⟩
+
+theorem findAux_isSome (sub : Str) : ∀ (x : Str) (off : Nat), (findAux sub x off).isSome = strIn sub x
+  | [], off => by simp only [findAux, strIn_nil_right]; split <;> simp_all
+  | c :: t, off => by
+    rw [findAux, strIn_cons]
+    split
+    · next h => simp [h]
+    · next h => rw [findAux_isSome sub t]; simp [h]
+
+/-- the first occurrence: no earlier position matches -/
+theorem findAux_first {sub : Str} : ∀ {x : Str} {off i : Nat}, findAux sub x off = some i →
+    ∀ j, j < i - off → sub.isPrefixOf (x.drop j) = false
+  | [], off, i, h, j, hj => by
+    simp only [findAux] at h
+    split at h
+    · cases h; omega
+    · cases h
+  | c :: t, off, i, h, j, hj => by
+    rw [findAux] at h
+    split at h
+    · cases h; omega
+    · next hp =>
+      cases j with
+      | zero => rw [List.drop_zero]; exact Bool.eq_false_iff.mpr hp
+      | succ j =>
+        rw [List.drop_succ_cons]
+        have := (findAux_some h).1
+        exact findAux_first h j (by omega)
+
+@[simp] theorem findFrom_zero (x sub : Str) : findFrom x sub 0 = findAux sub x 0 := by
+  simp [findFrom]
+
+theorem findFrom_isSome_zero (x sub : Str) : (findFrom x sub 0).isSome = strIn sub x := by
+  rw [findFrom_zero, findAux_isSome]
+
+theorem findFrom_some {x sub : Str} {start i : Nat} (h : findFrom x sub start = some i) :
+    start ≤ i ∧ i + sub.length ≤ x.length ∧ sub.isPrefixOf (x.drop i) = true := by
+  unfold findFrom at h
+  split at h
+  · next hs =>
+    have ⟨h1, h2, h3⟩ := findAux_some h
+    rw [List.length_drop] at h2
+    rw [List.drop_drop] at h3
+    have e : start + (i - start) = i := by omega
+    rw [e] at h3
+    exact ⟨h1, by omega, h3⟩
+  · cases h
+
+theorem find_eq (x sub : Str) : find x sub = match findAux sub x 0 with | some i => (i : Int) | none => -1 := by
+  simp only [find, findFrom_zero]
+  cases findAux sub x 0 <;> rfl
+
+theorem find_of_not_strIn {x sub : Str} (h : strIn sub x = false) : find x sub = -1 := by
+  have := findAux_isSome sub x 0
+  rw [h] at this
+  rw [find_eq]
+  cases h' : findAux sub x 0 <;> simp_all
+
+theorem find_bounds (x sub : Str) : -1 ≤ find x sub ∧ find x sub + sub.length ≤ x.length ∨ find x sub = -1 := by
+  rw [find_eq]
+  cases h : findAux sub x 0 with
+  | none => right; rfl
+  | some i =>
+    left
+    have := findAux_some h
+    simp only []
+    omega
+
+theorem find_of_strIn {x sub : Str} (h : strIn sub x = true) :
+    0 ≤ find x sub ∧ find x sub + sub.length ≤ x.length := by
+  have hs := findAux_isSome sub x 0
+  rw [h] at hs
+  rw [find_eq]
+  cases h' : findAux sub x 0 with
+  | none => rw [h'] at hs; cases hs
+  | some i =>
+    have := findAux_some h'
+    simp only []
+    omega
+
+theorem find_nonneg_iff {x sub : Str} : 0 ≤ find x sub ↔ strIn sub x = true := by
+  constructor
+  · intro h
+    cases hs : strIn sub x with
+    | true => rfl
+    | false => rw [find_of_not_strIn hs] at h; omega
+  · intro h; exact (find_of_strIn h).1
+
+theorem index_eq (x sub : Str) :
+    index x sub = match findAux sub x 0 with | some i => .ok (i : Int) | none => raise .valueError := by
+  simp only [index, findFrom_zero]
+  cases findAux sub x 0 <;> rfl
+
+/-- pure form of the `index` contract -/
+theorem index_of_strIn {x sub : Str} (h : strIn sub x = true) :
+    ∃ i : Nat, index x sub = .ok (i : Int) ∧ i + sub.length ≤ x.length ∧ sub.isPrefixOf (x.drop i) = true ∧
+      ∀ j, j < i → sub.isPrefixOf (x.drop j) = false := by
+  have hs := findAux_isSome sub x 0
+  rw [h] at hs
+  rw [index_eq]
+  cases h' : findAux sub x 0 with
+  | none => rw [h'] at hs; cases hs
+  | some i =>
+    have ⟨_, h2, h3⟩ := findAux_some h'
+    exact ⟨i, rfl, by omega, by simpa using h3, fun j hj => findAux_first h' j (by omega)⟩
+
+theorem index_of_not_strIn {x sub : Str} (h : strIn sub x = false) : index x sub = .error .valueError := by
+  have hs := findAux_isSome sub x 0
+  rw [h] at hs
+  rw [index_eq]
+  cases h' : findAux sub x 0 with
+  | none => rfl
+  | some i => rw [h'] at hs; cases hs
+
+theorem index_error {x sub : Str} {e : Exc} (h : index x sub = .error e) : e = .valueError := by
+  rw [index_eq] at h
+  cases h' : findAux sub x 0 with
+  | none => rw [h'] at h; cases h; rfl
+  | some i => rw [h'] at h; cases h
+
+theorem index_ok {x sub : Str} {i : Int} (h : index x sub = .ok i) :
+    strIn sub x = true ∧ 0 ≤ i ∧ i + sub.length ≤ x.length ∧ sub.isPrefixOf (x.drop i.toNat) = true := by
+  cases hs : strIn sub x with
+  | false => rw [index_of_not_strIn hs] at h; cases h
+  | true =>
+    obtain ⟨k, hk, h1, h2, _⟩ := index_of_strIn hs
+    rw [hk] at h; cases h
+    exact ⟨rfl, by omega, by omega, by simpa using h2⟩
+
+/-- single character: the result indexes an occurrence of `c` -/
+theorem index_single_of_mem {x : Str} {c : Nat} (h : c ∈ x) :
+    ∃ i : Nat, index x [c] = .ok (i : Int) ∧ i < x.length ∧ x[i]? = some c := by
+  obtain ⟨i, hi, h1, h2, _⟩ := index_of_strIn (strIn_single_iff.mpr h)
+  refine ⟨i, hi, by simp at h1; omega, ?_⟩
+  obtain ⟨t, ht⟩ := isPrefixOf_iff.mp h2
+  have := congrArg (·[0]?) ht
+  simpa using this
+
+theorem index_single_ok {x : Str} {c : Nat} {i : Int} (h : index x [c] = .ok i) :
+    c ∈ x ∧ 0 ≤ i ∧ i < x.length ∧ x[i.toNat]? = some c := by
+  have ⟨h1, h2, h3, h4⟩ := index_ok h
+  refine ⟨strIn_single_iff.mp h1, h2, by simp at h3; omega, ?_⟩
+  obtain ⟨t, ht⟩ := isPrefixOf_iff.mp h4
+  have := congrArg (·[0]?) ht
+  simpa using this
+
+/-! ### `indexL` -/
+
+theorem indexL_of_mem {α : Type} [BEq α] [LawfulBEq α] {l : List α} {v : α} (h : v ∈ l) :
+    ∃ i : Nat, indexL l v = .ok (i : Int) ∧ i < l.length ∧ l[i]? = some v := by
+  unfold indexL
+  cases hf : l.findIdx? (· == v) with
+  | none =>
+    rw [List.findIdx?_eq_none_iff] at hf
+    have := hf v h
+    simp at this
+  | some i =>
+    rw [List.findIdx?_eq_some_iff_getElem] at hf
+    obtain ⟨hi, hv, _⟩ := hf
+    refine ⟨i, rfl, hi, ?_⟩
+    rw [List.getElem?_eq_getElem hi]
+    simpa using hv
+
+theorem indexL_of_contains {α : Type} [BEq α] [LawfulBEq α] {l : List α} {v : α} (h : l.contains v = true) :
+    ∃ i : Nat, indexL l v = .ok (i : Int) ∧ i < l.length ∧ l[i]? = some v :=
+  indexL_of_mem (by simpa using h)
+
+theorem indexL_error {α : Type} [BEq α] {l : List α} {v : α} {e : Exc} (h : indexL l v = .error e) : e = .valueError := by
+  unfold indexL at h
+  cases hf : l.findIdx? (· == v) with
+  | none => rw [hf] at h; cases h; rfl
+  | some i => rw [hf] at h; cases h
+
+/-! ### `count` -/
+
+theorem count_nonneg (x sub : Str) : 0 ≤ count x sub := by
+  unfold count; split <;> omega
+
+theorem countGo_le (sub : Str) : ∀ (x : Str) (k : Nat), countGo sub x k ≤ x.length
+  | [], _ => by simp [countGo]
+  | c :: t, 0 => by
+    rw [countGo]; split
+    · have := countGo_le sub t (sub.length - 1); simp; omega
+    · have := countGo_le sub t 0; simp; omega
+  | c :: t, k + 1 => by rw [countGo]; have := countGo_le sub t k; simp; omega
+
+theorem count_le (x sub : Str) : count x sub ≤ x.length + 1 := by
+  unfold count; split
+  · omega
+  · have := countGo_le sub x 0; omega
+
+theorem countGo_pos_imp (sub : Str) : ∀ (x : Str), 0 < countGo sub x 0 → strIn sub x = true
+  | [], h => by simp [countGo] at h
+  | c :: t, h => by
+    rw [countGo] at h
+    rw [strIn_cons]
+    split at h
+    · next hp => simp [hp]
+    · simp [countGo_pos_imp sub t h]
+
+theorem count_single (x : Str) (c : Nat) : count x [c] = (x.count c : Nat) := by
+  unfold count
+  simp only [List.isEmpty_cons, Bool.false_eq_true, if_false]
+  congr 1
+  induction x with
+  | nil => rfl
+  | cons a t ih =>
+    rw [countGo, List.count_cons]
+    by_cases h : a = c
+    · subst h; simp [List.isPrefixOf, ih]
+    · have : (c == a) = false := by simpa using fun h' => h h'.symm
+      simp [List.isPrefixOf, this, h, ih]
+
+example : count [1, 1, 1, 1, 1] [1, 1] = 2 := by decide
+example : index [65, 66, 67] [66] = .ok 1 := rfl
+example : strIn [66, 67] [65, 66, 67] = true := by decide
+
+
+
+/-! ## `splitOn`, `rsplitOn` -/
+
+theorem splitGo_ne_nil (sep : Str) : ∀ (x : Str) (k : Nat) (cur : Str) (left : Option Nat), splitGo sep x k cur left ≠ []
+  | [], _, _, _ => by simp [splitGo]
+  | c :: t, 0, cur, left => by
+    rw [splitGo]; split
+    · simp
+    · exact splitGo_ne_nil sep t 0 _ _
+  | c :: t, k + 1, cur, left => by rw [splitGo]; exact splitGo_ne_nil sep t k _ _
+
+theorem mem_splitGo {sep : Str} {p : Str} : ∀ {x : Str} {k : Nat} {cur : Str} {left : Option Nat},
+    p ∈ splitGo sep x k cur left → ∀ c ∈ p, c ∈ x ∨ c ∈ cur
+  | [], _, cur, _, h, c, hc => by
+    simp only [splitGo, List.mem_singleton] at h
+    subst h
+    exact Or.inr (List.mem_reverse.mp hc)
+  | a :: t, 0, cur, left, h, c, hc => by
+    rw [splitGo] at h
+    split at h
+    · rcases List.mem_cons.mp h with rfl | h
+      · exact Or.inr (List.mem_reverse.mp hc)
+      · rcases mem_splitGo h c hc with h' | h'
+        · exact Or.inl (List.mem_cons_of_mem _ h')
+        · simp at h'
+    · rcases mem_splitGo h c hc with h' | h'
+      · exact Or.inl (List.mem_cons_of_mem _ h')
+      · rcases List.mem_cons.mp h' with rfl | h'
+        · exact Or.inl (by simp)
+        · exact Or.inr h'
+  | a :: t, k + 1, cur, left, h, c, hc => by
+    rw [splitGo] at h
+    rcases mem_splitGo h c hc with h' | h'
+    · exact Or.inl (List.mem_cons_of_mem _ h')
+    · exact Or.inr h'
+
+theorem splitGo_length_le (sep : Str) : ∀ (x : Str) (k : Nat) (cur : Str) (m : Nat),
+    (splitGo sep x k cur (some m)).length ≤ m + 1
+  | [], _, _, _ => by simp [splitGo]
+  | c :: t, 0, cur, m => by
+    rw [splitGo]; split
+    · next h =>
+      cases m with
+      | zero => simp at h
+      | succ m =>
+        have := splitGo_length_le sep t (sep.length - 1) [] m
+        simp only [Option.map_some, Nat.add_sub_cancel, List.length_cons]
+        omega
+    · exact splitGo_length_le sep t 0 _ m
+  | c :: t, k + 1, cur, m => by rw [splitGo]; exact splitGo_length_le sep t k _ m
+
+theorem splitGo_length_le_length (sep : Str) : ∀ (x : Str) (k : Nat) (cur : Str) (left : Option Nat),
+    (splitGo sep x k cur left).length ≤ x.length + 1
+  | [], _, _, _ => by simp [splitGo]
+  | c :: t, 0, cur, left => by
+    rw [splitGo]; split
+    · have := splitGo_length_le_length sep t (sep.length - 1) [] (left.map (· - 1)); simp; omega
+    · have := splitGo_length_le_length sep t 0 (c :: cur) left; simp; omega
+  | c :: t, k + 1, cur, left => by
+    rw [splitGo]; have := splitGo_length_le_length sep t k cur left; simp; omega
+
+theorem join_splitGo {sep : Str} (hsep : sep ≠ []) : ∀ (x : Str) (k : Nat) (cur : Str) (left : Option Nat),
+    join sep (splitGo sep x k cur left) = cur.reverse ++ x.drop k
+  | [], _, cur, _ => by simp [splitGo]
+  | c :: t, 0, cur, left => by
+    rw [splitGo]; split
+    · next h =>
+      simp only [Bool.and_eq_true] at h
+      obtain ⟨t', ht'⟩ := isPrefixOf_iff.mp h.2
+      rw [join_cons_of_ne_nil _ _ (splitGo_ne_nil _ _ _ _ _), join_splitGo hsep]
+      match sep, hsep, ht' with
+      | s0 :: sep', _, ht' =>
+        simp only [List.cons_append, List.cons.injEq] at ht'
+        obtain ⟨rfl, rfl⟩ := ht'
+        simp
+    · rw [join_splitGo hsep]; simp
+  | c :: t, k + 1, cur, left => by rw [splitGo, join_splitGo hsep]; simp
+
+theorem splitOn_ne_nil (x sep : Str) (m : Option Nat) : splitOn x sep m ≠ [] := splitGo_ne_nil _ _ _ _ _
+
+@[simp, grind .] theorem splitOn_length_pos (x sep : Str) (m : Option Nat) : 0 < (splitOn x sep m).length :=
+  List.length_pos_iff.mpr (splitOn_ne_nil x sep m)
+
+@[grind .] theorem splitOn_length_le (x sep : Str) (m : Nat) : (splitOn x sep (some m)).length ≤ m + 1 :=
+  splitGo_length_le _ _ _ _ _
+
+theorem splitOn_length_le_length (x sep : Str) (m : Option Nat) : (splitOn x sep m).length ≤ x.length + 1 :=
+  splitGo_length_le_length _ _ _ _ _
+
+/-- every character of every part is a character of the input -/
+@[grind →] theorem mem_splitOn {x sep p : Str} {m : Option Nat} (h : p ∈ splitOn x sep m) : ∀ c ∈ p, c ∈ x := by
+  intro c hc
+  rcases mem_splitGo h c hc with h' | h'
+  · exact h'
+  · simp at h'
+
+theorem AllIn.splitOn {q : Nat → Bool} {x : Str} (hx : AllIn q x) {sep p : Str} {m : Option Nat}
+    (h : p ∈ Py.splitOn x sep m) : AllIn q p := fun c hc => hx c (mem_splitOn h c hc)
+
+/-- `sep.join(x.split(sep)) == x` -/
+theorem join_splitOn {sep : Str} (hsep : sep ≠ []) (x : Str) (m : Option Nat) : join sep (splitOn x sep m) = x := by
+  unfold splitOn; rw [join_splitGo hsep]; simp
+
+theorem splitOn_zero (x sep : Str) : splitOn x sep (some 0) = [x] := by
+  unfold splitOn
+  suffices ∀ (x cur : Str), splitGo sep x 0 cur (some 0) = [cur.reverse ++ x] from by simpa using this x []
+  intro x
+  induction x with
+  | nil => intro cur; simp [splitGo]
+  | cons c t ih => intro cur; rw [splitGo]; simp [ih]
+
+theorem rsplitOn_ne_nil (x sep : Str) (m : Option Nat) : rsplitOn x sep m ≠ [] := by
+  unfold rsplitOn
+  simp [splitOn_ne_nil]
+
+@[simp, grind .] theorem rsplitOn_length_pos (x sep : Str) (m : Option Nat) : 0 < (rsplitOn x sep m).length :=
+  List.length_pos_iff.mpr (rsplitOn_ne_nil x sep m)
+
+@[grind .] theorem rsplitOn_length_le (x sep : Str) (m : Nat) : (rsplitOn x sep (some m)).length ≤ m + 1 := by
+  unfold rsplitOn
+  simpa using splitOn_length_le x.reverse sep.reverse m
+
+@[grind →] theorem mem_rsplitOn {x sep p : Str} {m : Option Nat} (h : p ∈ rsplitOn x sep m) : ∀ c ∈ p, c ∈ x := by
+  unfold rsplitOn at h
+  simp only [List.mem_reverse, List.mem_map] at h
+  obtain ⟨q, hq, rfl⟩ := h
+  intro c hc
+  have := mem_splitOn hq c (List.mem_reverse.mp hc)
+  simpa using this
+
+theorem AllIn.rsplitOn {q : Nat → Bool} {x : Str} (hx : AllIn q x) {sep p : Str} {m : Option Nat}
+    (h : p ∈ Py.rsplitOn x sep m) : AllIn q p := fun c hc => hx c (mem_rsplitOn h c hc)
+
+theorem join_reverse (sep : Str) (l : List Str) :
+    (join sep l).reverse = join sep.reverse (l.map List.reverse).reverse := by
+  induction l with
+  | nil => rfl
+  | cons a t ih =>
+    cases t with
+    | nil => simp
+    | cons b t =>
+      rw [join_cons_cons, List.reverse_append, List.reverse_append, ih]
+      simp only [List.map_cons, List.reverse_cons, List.append_assoc]
+      generalize (List.map List.reverse t).reverse = r
+      -- join s (r ++ [b'] ++ [a']) = join s (r ++ [b']) ++ s ++ a'
+      suffices ∀ (r : List Str) (b' a' s : Str), join s (r ++ [b'] ++ [a']) = join s (r ++ [b']) ++ (s ++ a') by
+        simpa using (this r b.reverse a.reverse sep.reverse).symm
+      intro r
+      induction r with
+      | nil => intro b' a' s; simp [join]
+      | cons c r ihr =>
+        intro b' a' s
+        have h1 : r ++ [b'] ++ [a'] ≠ [] := by simp
+        have h2 : r ++ [b'] ≠ [] := by simp
+        rw [List.cons_append, List.cons_append, join_cons_of_ne_nil _ _ h1, join_cons_of_ne_nil _ _ h2, ihr]
+        simp
+
+theorem join_rsplitOn {sep : Str} (hsep : sep ≠ []) (x : Str) (m : Option Nat) : join sep (rsplitOn x sep m) = x := by
+  have h := join_splitOn (sep := sep.reverse) (by simpa using hsep) x.reverse m
+  have h2 := congrArg List.reverse h
+  rw [join_reverse] at h2
+  simpa [rsplitOn] using h2
+
+example : splitOn [1, 0, 0, 2, 0] [0] = [[1], [], [2], []] := by decide
+example : rsplitOn [1, 0, 2, 0, 3] [0] (some 1) = [[1, 0, 2], [3]] := by decide
+
+/-! ## comparison -/
+
+@[simp] theorem strLt_nil_nil : strLt [] [] = false := rfl
+@[simp] theorem strLt_nil_cons (b : Nat) (y : Str) : strLt [] (b :: y) = true := rfl
+@[simp] theorem strLt_cons_nil (a : Nat) (x : Str) : strLt (a :: x) [] = false := rfl
+@[simp] theorem strLt_cons_cons (a b : Nat) (x y : Str) :
+    strLt (a :: x) (b :: y) = (decide (a < b) || (a == b && strLt x y)) := by
+  rw [strLt]
+  by_cases h1 : a < b
+  · simp [h1]
+  · by_cases h2 : b < a
+    · have : a ≠ b := by omega
+      simp [h1, h2, this]
+    · have : a = b := by omega
+      simp [this]
+
+@[simp] theorem strLt_nil_right (x : Str) : strLt x [] = false := by cases x <;> rfl
+
+@[simp] theorem strLt_irrefl (x : Str) : strLt x x = false := by
+  induction x with
+  | nil => rfl
+  | cons a t ih => simp [ih]
+
+@[simp] theorem strLe_refl (x : Str) : strLe x x = true := by simp [strLe]
+
+theorem strLt_single (a b : Nat) : strLt [a] [b] = decide (a < b) := by simp
+theorem strLe_single (a b : Nat) : strLe [a] [b] = decide (a ≤ b) := by
+  simp only [strLe, strLt_single]
+  by_cases h : b < a <;> simp [h] <;> omega
+
+theorem strLt_asymm {x y : Str} (h : strLt x y = true) : strLt y x = false := by
+  induction x generalizing y with
+  | nil => simp
+  | cons a t ih =>
+    cases y with
+    | nil => simp at h
+    | cons b u =>
+      simp only [strLt_cons_cons, Bool.or_eq_true, decide_eq_true_eq, Bool.and_eq_true, beq_iff_eq] at h ⊢
+      rcases h with h | ⟨rfl, h⟩
+      · have h1 : ¬ b < a := by omega
+        have h2 : b ≠ a := by omega
+        simp [h1, h2]
+      · simp [ih h]
+
+theorem strLt_trans {x y z : Str} (h1 : strLt x y = true) (h2 : strLt y z = true) : strLt x z = true := by
+  induction x generalizing y z with
+  | nil =>
+    cases z with
+    | nil => simp at h2
+    | cons c w => rfl
+  | cons a t ih =>
+    cases y with
+    | nil => simp at h1
+    | cons b u =>
+      cases z with
+      | nil => simp at h2
+      | cons c w =>
+        simp only [strLt_cons_cons, Bool.or_eq_true, decide_eq_true_eq, Bool.and_eq_true, beq_iff_eq] at h1 h2 ⊢
+        rcases h1 with h1 | ⟨rfl, h1⟩
+        · rcases h2 with h2 | ⟨rfl, h2⟩
+          · left; omega
+          · left; exact h1
+        · rcases h2 with h2 | ⟨rfl, h2⟩
+          · left; exact h2
+          · right; exact ⟨rfl, ih h1 h2⟩
+
+theorem strLt_trichotomy (x y : Str) : strLt x y = true ∨ x = y ∨ strLt y x = true := by
+  induction x generalizing y with
+  | nil => cases y <;> simp
+  | cons a t ih =>
+    cases y with
+    | nil => simp
+    | cons b u =>
+      simp only [strLt_cons_cons, Bool.or_eq_true, decide_eq_true_eq, Bool.and_eq_true, beq_iff_eq, List.cons.injEq]
+      rcases Nat.lt_trichotomy a b with h | rfl | h
+      · exact Or.inl (Or.inl h)
+      · rcases ih u with h | rfl | h
+        · exact Or.inl (Or.inr ⟨rfl, h⟩)
+        · exact Or.inr (Or.inl ⟨rfl, rfl⟩)
+        · exact Or.inr (Or.inr (Or.inr ⟨rfl, h⟩))
+      · exact Or.inr (Or.inr (Or.inl h))
+
+theorem strLe_iff {x y : Str} : strLe x y = true ↔ strLt x y = true ∨ x = y := by
+  unfold strLe
+  constructor
+  · intro h
+    rcases strLt_trichotomy x y with h' | h' | h'
+    · exact Or.inl h'
+    · exact Or.inr h'
+    · simp [h'] at h
+  · rintro (h | rfl)
+    · simp [strLt_asymm h]
+    · simp
+
+theorem strLe_trans {x y z : Str} (h1 : strLe x y = true) (h2 : strLe y z = true) : strLe x z = true := by
+  rw [strLe_iff] at *
+  rcases h1 with h1 | rfl
+  · rcases h2 with h2 | rfl
+    · exact Or.inl (strLt_trans h1 h2)
+    · exact Or.inl h1
+  · exact h2
+
+theorem strLe_antisymm {x y : Str} (h1 : strLe x y = true) (h2 : strLe y x = true) : x = y := by
+  rw [strLe_iff] at *
+  rcases h1 with h1 | rfl
+  · rcases h2 with h2 | rfl
+    · rw [strLt_asymm h1] at h2; cases h2
+    · rfl
+  · rfl
+
+/-! ## dictionaries -/
+
+/-- a successful look-up returns an entry of the association list -/
+theorem dictGet?_mem {κ ν : Type} [BEq κ] [LawfulBEq κ] (d : List (κ × ν)) (k : κ) (v : ν)
+    (h : dictGet? d k = some v) : (k, v) ∈ d := by
+  unfold dictGet? at h
+  cases hf : List.find? (fun p => p.1 == k) d with
+  | none => simp [hf] at h
+  | some p =>
+    rw [hf] at h
+    simp only [Option.map_some, Option.some.injEq] at h
+    have hm := List.mem_of_find?_eq_some hf
+    have hk := List.find?_some hf
+    simp only [beq_iff_eq] at hk
+    subst hk h
+    exact hm
+
+/-- a failed look-up: no entry has this key -/
+theorem dictGet?_none {κ ν : Type} [BEq κ] [LawfulBEq κ] (d : List (κ × ν)) (k : κ)
+    (h : dictGet? d k = none) : ∀ p ∈ d, p.1 ≠ k := by
+  unfold dictGet? at h
+  simp only [Option.map_eq_none_iff, List.find?_eq_none, beq_iff_eq] at h
+  exact h
+
+theorem dictHas_eq_any {κ ν : Type} [BEq κ] (d : List (κ × ν)) (k : κ) : dictHas d k = d.any (·.1 == k) := by
+  unfold dictHas dictGet?
+  induction d with
+  | nil => rfl
+  | cons p t ih =>
+    simp only [List.find?_cons, List.any_cons]
+    cases h : (p.1 == k) <;> simp_all
+
+theorem dictHas_iff {κ ν : Type} [BEq κ] [LawfulBEq κ] {d : List (κ × ν)} {k : κ} :
+    dictHas d k = true ↔ ∃ v, (k, v) ∈ d := by
+  rw [dictHas_eq_any]
+  simp only [List.any_eq_true, beq_iff_eq]
+  constructor
+  · rintro ⟨⟨k', v⟩, hm, rfl⟩; exact ⟨v, hm⟩
+  · rintro ⟨v, hm⟩; exact ⟨(k, v), hm, rfl⟩
+
+theorem dictGet_of_has {κ ν : Type} [BEq κ] {d : List (κ × ν)} {k : κ} (h : dictHas d k = true) :
+    ∃ v, dictGet d k = .ok v ∧ dictGet? d k = some v := by
+  unfold dictHas at h
+  unfold dictGet
+  cases hd : dictGet? d k with
+  | none => simp [hd] at h
+  | some v => exact ⟨v, rfl, rfl⟩
+
+theorem dictGet_ok_mem {κ ν : Type} [BEq κ] [LawfulBEq κ] {d : List (κ × ν)} {k : κ} {v : ν}
+    (h : dictGet d k = .ok v) : (k, v) ∈ d := by
+  unfold dictGet at h
+  cases hd : dictGet? d k with
+  | none => rw [hd] at h; cases h
+  | some w => rw [hd] at h; cases h; exact dictGet?_mem d k _ hd
+
+theorem dictGet_error {κ ν : Type} [BEq κ] {d : List (κ × ν)} {k : κ} {e : Exc}
+    (h : dictGet d k = .error e) : e = .keyError := by
+  unfold dictGet at h
+  cases hd : dictGet? d k with
+  | none => rw [hd] at h; cases h; rfl
+  | some w => rw [hd] at h; cases h
+
+theorem dictGetD_mem {κ ν : Type} [BEq κ] [LawfulBEq κ] (d : List (κ × ν)) (k : κ) (dflt : ν) :
+    dictGetD d k dflt = dflt ∨ (k, dictGetD d k dflt) ∈ d := by
+  unfold dictGetD
+  cases hd : dictGet? d k with
+  | none => exact Or.inl rfl
+  | some w => exact Or.inr (dictGet?_mem d k _ hd)
+
+/-! ## `maxInt`, `minInt`, `ord`, `chr` -/
+
+theorem foldl_max_spec (t : List Int) (a : Int) :
+    (t.foldl max a = a ∨ t.foldl max a ∈ t) ∧ a ≤ t.foldl max a ∧ ∀ x ∈ t, x ≤ t.foldl max a := by
+  induction t generalizing a with
+  | nil => simp
+  | cons b t ih =>
+    have ⟨h1, h2, h3⟩ := ih (max a b)
+    simp only [List.foldl_cons, List.mem_cons]
+    refine ⟨?_, by omega, ?_⟩
+    · rcases h1 with h1 | h1
+      · rw [h1]; rcases Int.le_total a b with h | h
+        · right; left; omega
+        · left; omega
+      · right; right; exact h1
+    · rintro x (rfl | hx)
+      · omega
+      · exact h3 x hx
+
+theorem foldl_min_spec (t : List Int) (a : Int) :
+    (t.foldl min a = a ∨ t.foldl min a ∈ t) ∧ t.foldl min a ≤ a ∧ ∀ x ∈ t, t.foldl min a ≤ x := by
+  induction t generalizing a with
+  | nil => simp
+  | cons b t ih =>
+    have ⟨h1, h2, h3⟩ := ih (min a b)
+    simp only [List.foldl_cons, List.mem_cons]
+    refine ⟨?_, by omega, ?_⟩
+    · rcases h1 with h1 | h1
+      · rw [h1]; rcases Int.le_total a b with h | h
+        · left; omega
+        · right; left; omega
+      · right; right; exact h1
+    · rintro x (rfl | hx)
+      · omega
+      · exact h3 x hx
+
+theorem maxInt_ok {l : List Int} (h : l ≠ []) : ∃ m, maxInt l = .ok m ∧ m ∈ l ∧ ∀ x ∈ l, x ≤ m := by
+  match l, h with
+  | a :: t, _ =>
+    have ⟨h1, h2, h3⟩ := foldl_max_spec t a
+    refine ⟨_, rfl, ?_, ?_⟩
+    · rcases h1 with h1 | h1
+      · rw [h1]; simp
+      · exact List.mem_cons_of_mem _ h1
+    · rintro x hx
+      rcases List.mem_cons.mp hx with rfl | hx
+      · exact h2
+      · exact h3 x hx
+
+theorem minInt_ok {l : List Int} (h : l ≠ []) : ∃ m, minInt l = .ok m ∧ m ∈ l ∧ ∀ x ∈ l, m ≤ x := by
+  match l, h with
+  | a :: t, _ =>
+    have ⟨h1, h2, h3⟩ := foldl_min_spec t a
+    refine ⟨_, rfl, ?_, ?_⟩
+    · rcases h1 with h1 | h1
+      · rw [h1]; simp
+      · exact List.mem_cons_of_mem _ h1
+    · rintro x hx
+      rcases List.mem_cons.mp hx with rfl | hx
+      · exact h2
+      · exact h3 x hx
+
+@[simp] theorem ord_singleton (c : Nat) : ord [c] = .ok (c : Int) := rfl
+
+theorem ord_of_length_one {s : Str} (h : s.length = 1) : ∃ c, s = [c] ∧ ord s = .ok (c : Int) := by
+  match s, h with
+  | [c], _ => exact ⟨c, rfl, rfl⟩
+
+theorem chr_ok {n : Int} (h : 0 ≤ n ∧ n < 0x110000) : chr n = .ok [n.toNat] := by
+  unfold chr; rw [if_pos h]
+
+@[simp] theorem tupleToList_pair {α : Type} (a b : α) : tupleToList (a, b) = [a, b] := rfl
+
 
 end Py
